@@ -67,6 +67,73 @@ theorem listTill_sound {α : Type} (p : List Tok → Option (α × List Tok)) (r
       · cases h
   · cases h
 
+/-- renderings one after the other -/
+def rCat {α : Type} (r : α → List Tok) : List α → List Tok
+  | [] => []
+  | a :: as => r a ++ rCat r as
+
+/-- what `many` accepts is its elements' renderings one after the other -/
+theorem many_sound {α : Type} (p : List Tok → Option (α × List Tok)) (r : α → List Tok)
+    (hp : ∀ ts a r', p ts = some (a, r') → ts = r a ++ r') :
+    ∀ k ts as r', many p k ts = (as, r') → ts = rCat r as ++ r' := by
+  intro k
+  induction k with
+  | zero =>
+    intro ts as r' h
+    simp only [many, Prod.mk.injEq] at h
+    obtain ⟨h1, h2⟩ := h; subst h1; subst h2; rfl
+  | succ k ih =>
+    intro ts as r' h
+    simp only [many] at h
+    split at h
+    · simp only [Prod.mk.injEq] at h
+      obtain ⟨h1, h2⟩ := h; subst h1; subst h2; rfl
+    · next a r0 hpa =>
+      simp only [Prod.mk.injEq] at h
+      obtain ⟨h1, h2⟩ := h; subst h1; subst h2
+      have e0 := hp _ _ _ hpa
+      have e1 := ih r0 _ _ rfl
+      simp only [rCat, List.append_assoc]
+      rw [← e1, ← e0]
+
+theorem many_none {α : Type} (p : List Tok → Option (α × List Tok)) (k : Nat) (ts : List Tok) (h : p ts = none) :
+    many p k ts = ([], ts) := by
+  cases k <;> simp [many, h]
+
+/-- `many` reads back renderings put one after the other, when each element is read back before whatever may
+    follow it (`Q`), and the parser does not accept what follows the last -/
+theorem many_complete {α : Type} (p : List Tok → Option (α × List Tok)) (r : α → List Tok) (rest : List Tok)
+    (Q : List Tok → Prop) (hQ : Q rest) (hnone : p rest = none) : ∀ (as : List α),
+    (∀ a ∈ as, ∀ tail, Q tail → p (r a ++ tail) = some (a, tail) ∧ Q (r a ++ tail)) →
+    Q (rCat r as ++ rest) ∧ ∀ k, as.length ≤ k → many p k (rCat r as ++ rest) = (as, rest) := by
+  intro as
+  induction as with
+  | nil =>
+    intro _
+    refine ⟨hQ, ?_⟩
+    intro k _
+    exact many_none p k _ hnone
+  | cons a as ih =>
+    intro hp
+    obtain ⟨hq, hm⟩ := ih (fun x hx => hp x (List.mem_cons_of_mem _ hx))
+    have h1 := hp a (by simp) _ hq
+    refine ⟨by simpa [rCat] using h1.2, ?_⟩
+    intro k hk
+    cases k with
+    | zero => simp at hk
+    | succ k =>
+      have h2 := hm k (by simp at hk; omega)
+      simp only [rCat, List.append_assoc, many, h1.1, h2]
+
+theorem rCat_length_ge {α : Type} (r : α → List Tok) : ∀ as : List α, (∀ a ∈ as, 1 ≤ (r a).length) →
+    as.length ≤ (rCat r as).length
+  | [], _ => by simp [rCat]
+  | a :: as, h => by
+    have ih := rCat_length_ge r as (fun x hx => h x (List.mem_cons_of_mem _ hx))
+    have := h a (by simp)
+    simp only [rCat, List.length_append, List.length_cons]
+    omega
+
 /-! ### the mutual renderers are `rSep` of their element renderers -/
 
 theorem rExs_eq (g : Gram) : ∀ es : List Exp, rExs g es = rSep (rEx g) .comma es
@@ -96,6 +163,158 @@ theorem rSubs_eq (g : Gram) : ∀ ss : List (Sub Fac), rSubs g ss = rSep (rSub g
   | e :: e' :: es => by
     have := rSubs_eq g (e' :: es)
     simp only [rSubs, rSep, this]
+
+theorem rSels_eq (g : Gram) : ∀ ss : List (Sel Fac), rSels g ss = rCat (rSel g) ss
+  | [] => by simp [rSels, rCat]
+  | s :: ss => by simp only [rSels, rCat, rSels_eq g ss]
+
+theorem rTRows_eq (g : Gram) : ∀ rs : List (List Exp), rTRows g rs = rCat (fun row => rRow g row ++ [.bar]) rs
+  | [] => by simp [rTRows, rCat]
+  | r :: rs => by simp only [rTRows, rCat, rTRows_eq g rs, List.append_assoc, List.cons_append, List.nil_append]
+
+theorem rArgs_eq (g : Gram) : ∀ ss : List (Arg Fac), rArgs g ss = rSep (rArg g) .comma ss
+  | [] => by simp [rArgs, rSep]
+  | [e] => by simp [rArgs, rSep]
+  | e :: e' :: es => by
+    have := rArgs_eq g (e' :: es)
+    simp only [rArgs, rSep, this]
+
+theorem rBinds_eq (g : Gram) : ∀ ss : List (Bind Fac), rBinds g ss = rSep (rBind g) .comma ss
+  | [] => by simp [rBinds, rSep]
+  | [e] => by simp [rBinds, rSep]
+  | e :: e' :: es => by
+    have := rBinds_eq g (e' :: es)
+    simp only [rBinds, rSep, this]
+
+theorem rMaps_eq (g : Gram) : ∀ ss : List (Mapping Fac), rMaps g ss = rSep (rMapping g) .comma ss
+  | [] => by simp [rMaps, rSep]
+  | [e] => by simp [rMaps, rSep]
+  | e :: e' :: es => by
+    have := rMaps_eq g (e' :: es)
+    simp only [rMaps, rSep, this]
+
+inductive Fa2 {α β : Type} (R : α → β → Prop) : List α → List β → Prop where
+  | nil : Fa2 R [] []
+  | cons {a b as bs} : R a b → Fa2 R as bs → Fa2 R (a :: as) (b :: bs)
+
+/-- separated renderings of two lists whose elements render alike -/
+theorem rSep_rel {α β : Type} (r : α → List Tok) (r' : β → List Tok) (sep : Tok) :
+    ∀ (as : List α) (bs : List β), Fa2 (fun a b => r a = r' b) as bs → rSep r sep as = rSep r' sep bs := by
+  intro as bs h
+  induction h with
+  | nil => rfl
+  | cons hab hrest ih =>
+    rename_i a b as' bs'
+    cases hrest with
+    | nil => simp [rSep, hab]
+    | cons hab' hrest' =>
+      simp only [rSep] at ih ⊢
+      rw [hab, ih]
+
+/-! ### the classification of the entries between braces -/
+
+def entB : Bind Fac → Ent Fac
+  | .mk x k e => .bind x k e
+
+def entM : Mapping Fac → Ent Fac
+  | .mk (.form (.leaf (.var x))) v => .bind x none v
+  | .mk k v => .keyed k v
+
+theorem rEnt_entB (g : Gram) (b : Bind Fac) : rEnt g (entB b) = rBind g b := by
+  cases b; simp [entB, rEnt, rBind]
+
+theorem rEnt_entM (g : Gram) (m : Mapping Fac) : rEnt g (entM m) = rMapping g m := by
+  unfold entM
+  split <;> simp [rEnt, rMapping, rEx, rTrm, rFac]
+
+theorem allBind_spec : ∀ (ents : List (Ent Fac)) (bs : List (Bind Fac)), allBind ents = some bs → ents = bs.map entB
+  | [], bs, h => by simp only [allBind, Option.some.injEq] at h; subst h; rfl
+  | .bind x k e :: es, bs, h => by
+    simp only [allBind] at h
+    split at h
+    · next bs' hb =>
+      have := allBind_spec es bs' hb
+      cases h
+      simp [entB, this]
+    · cases h
+  | .plain _ :: _, _, h => by simp [allBind] at h
+  | .keyed _ _ :: _, _, h => by simp [allBind] at h
+
+theorem allPlain_spec : ∀ (ents : List (Ent Fac)) (xs : List Exp), allPlain ents = some xs → ents = xs.map .plain
+  | [], bs, h => by simp only [allPlain, Option.some.injEq] at h; subst h; rfl
+  | .plain e :: es, bs, h => by
+    simp only [allPlain] at h
+    split at h
+    · next bs' hb =>
+      have := allPlain_spec es bs' hb
+      cases h
+      simp [this]
+    · cases h
+  | .bind _ _ _ :: _, _, h => by simp [allPlain] at h
+  | .keyed _ _ :: _, _, h => by simp [allPlain] at h
+
+/-- the entries a map was classified from render as its elements -/
+theorem allKeyed_spec (g : Gram) : ∀ (ents : List (Ent Fac)) (ms : List (Mapping Fac)), allKeyed ents = some ms →
+    Fa2 (fun m a => rMapping g m = rEnt g a) ms ents
+  | [], bs, h => by simp only [allKeyed, Option.some.injEq] at h; subst h; exact .nil
+  | .keyed k v :: es, bs, h => by
+    simp only [allKeyed] at h
+    split at h
+    · next bs' hb =>
+      have := allKeyed_spec g es bs' hb
+      cases h
+      exact .cons (by simp [rMapping, rEnt]) this
+    · cases h
+  | .bind x none v :: es, bs, h => by
+    simp only [allKeyed] at h
+    split at h
+    · next bs' hb =>
+      have := allKeyed_spec g es bs' hb
+      cases h
+      exact .cons (by simp [rMapping, rEnt, rEx, rTrm, rFac]) this
+    · cases h
+  | .bind _ (some _) _ :: _, _, h => by simp [allKeyed] at h
+  | .plain _ :: _, _, h => by simp [allKeyed] at h
+
+theorem rSep_map {α β : Type} (r : β → List Tok) (f : α → β) (sep : Tok) (as : List α) :
+    rSep r sep (as.map f) = rSep (fun a => r (f a)) sep as := by
+  apply rSep_rel
+  induction as with
+  | nil => exact .nil
+  | cons a as ih => exact .cons rfl ih
+
+/-- whatever the entries are classified as renders as the entries between braces -/
+theorem classify_render (g : Gram) (ents : List (Ent Fac)) (f : Fac) (h : classify ents = some f) :
+    rFac g f = .lc :: rSep (rEnt g) .comma ents ++ [.rc] := by
+  unfold classify at h
+  split at h
+  · cases h; simp [rFac, rExs, rSep]
+  · next hne =>
+    split at h
+    · next bs hb =>
+      cases h
+      have := allBind_spec ents bs hb
+      subst this
+      rw [rSep_map]
+      simp only [rFac, rBinds_eq, rEnt_entB]
+    · split at h
+      · next ms hm =>
+        cases h
+        have hrel := allKeyed_spec g ents ms hm
+        have hne' : ms.isEmpty = false := by
+          cases hrel with
+          | nil => exact absurd rfl (hne)
+          | cons _ _ => rfl
+        simp only [rFac, hne', Bool.false_eq_true, if_false, rMaps_eq]
+        rw [rSep_rel (rMapping g) (rEnt g) .comma ms ents hrel]
+      · split at h
+        · next es he =>
+          cases h
+          have := allPlain_spec ents es he
+          subst this
+          rw [rSep_map]
+          simp only [rFac, rExs_eq, rEnt]
+        · cases h
 
 /-! ### part 1: what the parser accepts is the rendering of what it returns -/
 
@@ -142,24 +361,52 @@ theorem binOp_some (g : Gram) (t : Tok) (o : Op) (h : g.binOp? t = some o) :
     · cases h
   | _ => simp [Gram.binOp?] at h
 
-/-- the five claims for fuel `n` -/
+/-- the eight claims for fuel `n` -/
 def PR (g : Gram) (n : Nat) : Prop :=
   (∀ ts f r, pFac g n ts = some (f, r) → ts = rFac g f ++ r) ∧
   (∀ ts ps r, pChain g n ts = some (ps, r) → ts = rRest g ps ++ r ∧ OpsIn g.N ps) ∧
   (∀ ts t r, pForm g n ts = some (t, r) → ts = rTrm g t ++ r) ∧
   (∀ ts e r, pEx g n ts = some (e, r) → ts = rEx g e ++ r) ∧
-  (∀ ts s r, pSub g n ts = some (s, r) → ts = rSub g s ++ r)
+  (∀ ts s r, pSub g n ts = some (s, r) → ts = rSub g s ++ r) ∧
+  (∀ ts a r, pArg g n ts = some (a, r) → ts = rArg g a ++ r) ∧
+  (∀ ts a r, pEnt g n ts = some (a, r) → ts = rEnt g a ++ r) ∧
+  (∀ ts s r, pSel g n ts = some (s, r) → ts = rSel g s ++ r)
+
+theorem pName_sound : ∀ ts a r', pName ts = some (a, r') → ts = (fun z => [Tok.id z]) a ++ r' := by
+  intro ts a r' h
+  unfold pName at h
+  split at h
+  · obtain ⟨h1, h2⟩ := Prod.mk.inj (Option.some.inj h); subst h1; subst h2; rfl
+  · cases h
+
+theorem pField_sound : ∀ ts a r', pField ts = some (a, r') → ts = (fun f : Nat × Nat => [Tok.id f.1, Tok.kind f.2]) a ++ r' := by
+  intro ts a r' h
+  unfold pField at h
+  split at h
+  · obtain ⟨h1, h2⟩ := Prod.mk.inj (Option.some.inj h); subst h1; subst h2; rfl
+  · cases h
+
+theorem rowOf_sound (g : Gram) (p : List Tok → Option (Exp × List Tok)) (hp : ∀ ts e r, p ts = some (e, r) → ts = rEx g e ++ r) :
+    ∀ ts row r', rowOf p ts = some (row, r') → ts = (fun row => rRow g row ++ [Tok.bar]) row ++ r' := by
+  intro ts row r' h
+  unfold rowOf at h
+  split at h
+  · next cells r0 hs =>
+    obtain ⟨h1, h2⟩ := Prod.mk.inj (Option.some.inj h); subst h1; subst h2
+    have := (sepBy_sound p (rEx g) .sp hp _ _ _ _ hs).1
+    rw [this]; simp [rRow_eq]
+  · cases h
 
 theorem post_eq {f0 f : Fac} {r0 r : List Tok} (h : some (post f0 r0) = some (f, r)) : post f0 r0 = (f, r) :=
   Option.some.inj h
 
 theorem pr_step (g : Gram) (n : Nat) (ih : PR g n) : PR g (n + 1) := by
-  obtain ⟨ihF, ihC, ihT, ihE, ihS⟩ := ih
+  obtain ⟨ihF, ihC, ihT, ihE, ihS, ihA, ihN, ihL⟩ := ih
   have hRow : ∀ ts (row : List Exp) r', (fun ts => sepBy (pEx g n) .sp ts.length ts) ts = some (row, r') → ts = rRow g row ++ r' := by
     intro ts row r' h
     rw [rRow_eq]
     exact (sepBy_sound (pEx g n) (rEx g) .sp ihE _ _ _ _ h).1
-  refine ⟨?_, ?_, ?_, ?_, ?_⟩
+  refine ⟨?_, ?_, ?_, ?_, ?_, ?_, ?_, ?_⟩
   · intro ts f r h
     simp only [pFac] at h
     split at h
@@ -169,22 +416,24 @@ theorem pr_step (g : Gram) (n : Nat) (ih : PR g n) : PR g (n + 1) := by
     · -- call
       split at h
       · next args r' hl =>
-        have e1 := listTill_sound (pEx g n) (rEx g) .comma .rp ihE _ _ _ hl
+        have e1 := listTill_sound (pArg g n) (rArg g) .comma .rp ihA _ _ _ hl
         have := post_render g _ _ _ _ (post_eq h)
-        rw [e1, ← rExs_eq]
+        rw [e1, ← rArgs_eq]
         simpa [rFac] using this
       · cases h
-    · -- slice
+    · -- a name, with or without subscripts
+      next x r0 _ =>
       split at h
-      · next subs r' hl =>
-        have e1 := (sepBy_sound (pSub g n) (rSub g) .comma ihS _ _ _ _ hl).1
+      · next r' heq =>
+        have e1 := many_sound (pSel g n) (rSel g) ihL _ _ _ _ heq
         have := post_render g _ _ _ _ (post_eq h)
-        rw [e1, ← rSubs_eq]
+        rw [e1]
+        simpa [rFac, rCat] using this
+      · next sels r' _ heq =>
+        have e1 := many_sound (pSel g n) (rSel g) ihL _ _ _ _ heq
+        have := post_render g _ _ _ _ (post_eq h)
+        rw [e1, ← rSels_eq]
         simpa [rFac] using this
-      · cases h
-    · -- variable
-      have := post_render g _ _ _ _ (post_eq h)
-      simpa [rFac] using this
     · -- matrix
       split at h
       · next rows r' hl =>
@@ -193,13 +442,32 @@ theorem pr_step (g : Gram) (n : Nat) (ih : PR g n) : PR g (n + 1) := by
         rw [e1, ← rRows_eq]
         simpa [rFac] using this
       · cases h
-    · -- set
+    · -- table
       split at h
-      · next es r' hl =>
-        have e1 := listTill_sound (pEx g n) (rEx g) .comma .rc ihE _ _ _ hl
-        have := post_render g _ _ _ _ (post_eq h)
-        rw [e1, ← rExs_eq]
-        simpa [rFac] using this
+      · next hdr r1 hh =>
+        have e1 := (sepBy_sound pField (fun f : Nat × Nat => [Tok.id f.1, Tok.kind f.2]) .sp pField_sound _ _ _ _ hh).1
+        split at h
+        · cases h
+        · next rows r2 _ hm =>
+          have e2 := many_sound (rowOf (pEx g n)) (fun row => rRow g row ++ [Tok.bar]) (rowOf_sound g (pEx g n) ihE) _ _ _ _ hm
+          have := post_render g _ _ _ _ (post_eq h)
+          rw [e1, e2, ← rTRows_eq]
+          simpa [rFac] using this
+      · cases h
+    · -- the empty map
+      have := post_render g _ _ _ _ (post_eq h)
+      simpa [rFac] using this
+    · -- record, map or set
+      split at h
+      · next ents r' hl =>
+        have e1 := listTill_sound (pEnt g n) (rEnt g) .comma .rc ihN _ _ _ hl
+        split at h
+        · next f0 hcl =>
+          have e2 := classify_render g ents f0 hcl
+          have := post_render g _ _ _ _ (post_eq h)
+          rw [e1, ← this, e2]
+          simp
+        · cases h
       · cases h
     · -- parenthetical term or tuple
       split at h
@@ -310,10 +578,81 @@ theorem pr_step (g : Gram) (n : Nat) (ih : PR g n) : PR g (n + 1) := by
         obtain ⟨h1, h2⟩ := Prod.mk.inj (Option.some.inj h); subst h1; subst h2
         rw [e1]; simp [rSub]
       · cases h
+  · intro ts a r h
+    simp only [pArg] at h
+    split at h
+    · split at h
+      · next e r0 hp =>
+        have e1 := ihE _ _ _ hp
+        obtain ⟨h1, h2⟩ := Prod.mk.inj (Option.some.inj h); subst h1; subst h2
+        rw [e1]; simp [rArg]
+      · cases h
+    · split at h
+      · next e r0 hp =>
+        have e1 := ihE _ _ _ hp
+        obtain ⟨h1, h2⟩ := Prod.mk.inj (Option.some.inj h); subst h1; subst h2
+        rw [e1]; simp [rArg]
+      · cases h
+  · intro ts a r h
+    simp only [pEnt] at h
+    split at h
+    · split at h
+      · next e r0 hp =>
+        have e1 := ihE _ _ _ hp
+        obtain ⟨h1, h2⟩ := Prod.mk.inj (Option.some.inj h); subst h1; subst h2
+        rw [e1]; simp [rEnt]
+      · cases h
+    · split at h
+      · next e r0 hp =>
+        have e1 := ihE _ _ _ hp
+        obtain ⟨h1, h2⟩ := Prod.mk.inj (Option.some.inj h); subst h1; subst h2
+        rw [e1]; simp [rEnt]
+      · cases h
+    · split at h
+      · next a0 r0 hp =>
+        have e1 := ihE _ _ _ hp
+        split at h
+        · next b r1 hp2 =>
+          have e2 := ihE _ _ _ hp2
+          obtain ⟨h1, h2⟩ := Prod.mk.inj (Option.some.inj h); subst h1; subst h2
+          rw [e1, e2]; simp [rEnt]
+        · cases h
+      · next a0 r0 _ hp =>
+        have e1 := ihE _ _ _ hp
+        obtain ⟨h1, h2⟩ := Prod.mk.inj (Option.some.inj h); subst h1; subst h2
+        rw [e1]; simp [rEnt]
+      · cases h
+  · intro ts s r h
+    simp only [pSel] at h
+    split at h
+    · split at h
+      · next subs r' hl =>
+        have e1 := (sepBy_sound (pSub g n) (rSub g) .comma ihS _ _ _ _ hl).1
+        obtain ⟨h1, h2⟩ := Prod.mk.inj (Option.some.inj h); subst h1; subst h2
+        rw [e1, ← rSubs_eq]; simp [rSel]
+      · cases h
+    · split at h
+      · next subs r' hl =>
+        have e1 := (sepBy_sound (pSub g n) (rSub g) .comma ihS _ _ _ _ hl).1
+        obtain ⟨h1, h2⟩ := Prod.mk.inj (Option.some.inj h); subst h1; subst h2
+        rw [e1, ← rSubs_eq]; simp [rSel]
+      · cases h
+    · split at h
+      · next ys r' hl =>
+        have e1 := (sepBy_sound pName (fun z => [Tok.id z]) .swz pName_sound _ _ _ _ hl).1
+        obtain ⟨h1, h2⟩ := Prod.mk.inj (Option.some.inj h); subst h1; subst h2
+        rw [e1]; simp [rSel]
+      · cases h
+    · obtain ⟨h1, h2⟩ := Prod.mk.inj (Option.some.inj h); subst h1; subst h2
+      simp [rSel]
+    · obtain ⟨h1, h2⟩ := Prod.mk.inj (Option.some.inj h); subst h1; subst h2
+      simp [rSel]
+    · cases h
 
 theorem pr_all (g : Gram) : ∀ n, PR g n
   | 0 => ⟨fun _ _ _ h => by simp [pFac] at h, fun _ _ _ h => by simp [pChain] at h, fun _ _ _ h => by simp [pForm] at h,
-          fun _ _ _ h => by simp [pEx] at h, fun _ _ _ h => by simp [pSub] at h⟩
+          fun _ _ _ h => by simp [pEx] at h, fun _ _ _ h => by simp [pSub] at h, fun _ _ _ h => by simp [pArg] at h,
+          fun _ _ _ h => by simp [pEnt] at h, fun _ _ _ h => by simp [pSel] at h⟩
   | n + 1 => pr_step g n (pr_all g n)
 
 /-- whatever its operands are, the tree `formula` returns is the documented grouping of the flat
@@ -344,23 +683,15 @@ theorem pForm_wellgrouped (g : Gram) (n : Nat) (ts : List Tok) (t : Trm) (r : Li
 
 /-! statements and programs -/
 
-theorem pTarget_sound (g : Gram) (n : Nat) (ts : List Tok) (x : Nat) (subs : List (Sub Fac)) (r : List Tok)
-    (h : pTarget g n ts = some (x, subs, r)) : ts = rTarget g x subs ++ r := by
+theorem pTarget_sound (g : Gram) (n : Nat) (ts : List Tok) (x : Nat) (sels : List (Sel Fac)) (r : List Tok)
+    (h : pTarget g n ts = some (x, sels, r)) : ts = rTarget g x sels ++ r := by
   unfold pTarget at h
   split at h
   · next x' r0 =>
-    split at h
-    · next subs' r' hl =>
-      obtain ⟨e1, hne⟩ := sepBy_sound (pSub g n) (rSub g) .comma (pr_all g n).2.2.2.2 _ _ _ _ hl
-      simp only [Option.some.injEq, Prod.mk.injEq] at h
-      obtain ⟨h1, h2, h3⟩ := h; subst h1; subst h2; subst h3
-      have : subs'.isEmpty = false := by cases subs' with | nil => exact absurd rfl hne | cons _ _ => rfl
-      rw [e1]; simp [rTarget, this, rSubs_eq]
-    · cases h
-  · next x' r0 _ =>
     simp only [Option.some.injEq, Prod.mk.injEq] at h
-    obtain ⟨h1, h2, h3⟩ := h; subst h1; subst h2; subst h3
-    simp [rTarget]
+    obtain ⟨h1, h2, h3⟩ := h; subst h1
+    have e1 := many_sound (pSel g n) (rSel g) (pr_all g n).2.2.2.2.2.2.2 r0.length r0 sels r (by rw [← h2, ← h3])
+    rw [e1, rTarget, rSels_eq]; rfl
   · cases h
 
 theorem pDefine_sound (g : Gram) (n : Nat) (mu : Bool) (ts : List Tok) (s : Stmt) (r : List Tok)
@@ -427,25 +758,47 @@ def Fac.isBase : Fac → Bool
   | .tr _ => false
   | _ => true
 
+/-- operands that end with a table literal: what follows them must not start another row -/
+def Fac.open : Fac → Bool
+  | .tbl _ _ => true
+  | .neg f => f.open
+  | .not f => f.open
+  | _ => false
+
+/-- the last operand of a flat formula -/
+def lastOp : Fac → Rest Fac → Fac
+  | f, [] => f
+  | _, (_, f') :: ps => lastOp f' ps
+
+def Ex.lastOpen : Exp → Bool
+  | .form t => (lastOp t.first t.tail).open
+  | .range _ _ b => (lastOp b.first b.tail).open
+  | .range3 _ _ _ _ b => (lastOp b.first b.tail).open
+
 mutual
 /-- canonical factors: inside parentheses and list elements the documented grouping; rows of a
     matrix and subscript lists are not empty; a one-element tuple is not a single formula (that is a
-    parenthetical term); a transposed factor is not itself prefixed or transposed -/
+    parenthetical term); a transposed factor is not itself prefixed or transposed; a record has a binding, not
+    every key of a map is a bare name; a table has a field and a row, a row has a cell and no cell ends with a
+    table; an operand that ends with a table is not followed by the subtraction sign -/
 def okF (g : Gram) : Fac → Prop
   | .lit _ => True
   | .var _ => True
-  | .call _ args => okEs g args
+  | .call _ args => okArgs g args
   | .mat rows => okRows g rows
   | .tup es => okEs g es ∧ (∀ t, es ≠ [.form t])
   | .set es => okEs g es
-  | .slice _ subs => subs ≠ [] ∧ okSubs g subs
+  | .recd bs => bs ≠ [] ∧ okBinds g bs
+  | .map ms => okMaps g ms ∧ (ms ≠ [] → allBind (ms.map entM) = none)
+  | .tbl hdr rows => hdr ≠ [] ∧ rows ≠ [] ∧ okTRows g rows
+  | .slice _ sels => sels ≠ [] ∧ okSels g sels
   | .paren t => WellGrouped t ∧ OpsIn g.N t.tail ∧ okL g t
   | .neg f => okF g f
   | .not f => okF g f
   | .tr f => f.isBase = true ∧ okF g f
 def okL (g : Gram) : Trm → Prop
   | .leaf f => okF g f
-  | .node l _ r => okL g l ∧ okL g r
+  | .node l o r => okL g l ∧ okL g r ∧ ((lastOp l.first l.tail).open = true → o ≠ g.sub)
 def okE (g : Gram) : Exp → Prop
   | .form t => WellGrouped t ∧ OpsIn g.N t.tail ∧ okL g t
   | .range a _ b => (WellGrouped a ∧ OpsIn g.N a.tail ∧ okL g a) ∧ (WellGrouped b ∧ OpsIn g.N b.tail ∧ okL g b)
@@ -457,12 +810,40 @@ def okEs (g : Gram) : List Exp → Prop
 def okRows (g : Gram) : List (List Exp) → Prop
   | [] => True
   | r :: rs => (r ≠ [] ∧ okEs g r) ∧ okRows g rs
+def okTRows (g : Gram) : List (List Exp) → Prop
+  | [] => True
+  | r :: rs => (r ≠ [] ∧ okEs g r ∧ ∀ e ∈ r, e.lastOpen = false) ∧ okTRows g rs
 def okSub (g : Gram) : Sub Fac → Prop
   | .all => True
   | .ex e => okE g e
 def okSubs (g : Gram) : List (Sub Fac) → Prop
   | [] => True
   | s :: ss => okSub g s ∧ okSubs g ss
+def okSel (g : Gram) : Sel Fac → Prop
+  | .bracket ss => ss ≠ [] ∧ okSubs g ss
+  | .brace ss => ss ≠ [] ∧ okSubs g ss
+  | .dot _ => True
+  | .dotInt _ => True
+  | .swizzle _ ys => ys ≠ []
+def okSels (g : Gram) : List (Sel Fac) → Prop
+  | [] => True
+  | s :: ss => okSel g s ∧ okSels g ss
+def okArg (g : Gram) : Arg Fac → Prop
+  | .pos e => okE g e
+  | .named _ e => okE g e
+def okArgs (g : Gram) : List (Arg Fac) → Prop
+  | [] => True
+  | a :: as => okArg g a ∧ okArgs g as
+def okBind (g : Gram) : Bind Fac → Prop
+  | .mk _ _ e => okE g e
+def okBinds (g : Gram) : List (Bind Fac) → Prop
+  | [] => True
+  | b :: bs => okBind g b ∧ okBinds g bs
+def okMapping (g : Gram) : Mapping Fac → Prop
+  | .mk k v => okE g k ∧ okE g v
+def okMaps (g : Gram) : List (Mapping Fac) → Prop
+  | [] => True
+  | m :: ms => okMapping g m ∧ okMaps g ms
 end
 
 def okT (g : Gram) (t : Trm) : Prop := WellGrouped t ∧ OpsIn g.N t.tail ∧ okL g t
@@ -472,11 +853,14 @@ mutual
 def costF : Fac → Nat
   | .lit _ => 1
   | .var _ => 1
-  | .call _ args => 1 + costEs args
+  | .call _ args => 1 + costArgs args
   | .mat rows => 1 + costRows rows
   | .tup es => 1 + costEs es
-  | .set es => 1 + costEs es
-  | .slice _ subs => 1 + costSubs subs
+  | .set es => 2 + costEs es
+  | .recd bs => 1 + costBinds bs
+  | .map ms => 1 + costMaps ms
+  | .tbl _ rows => 1 + costRows rows
+  | .slice _ sels => 1 + costSels sels
   | .paren t => 4 + costT t
   | .neg f => 1 + costF f
   | .not f => 1 + costF f
@@ -500,7 +884,42 @@ def costSub : Sub Fac → Nat
 def costSubs : List (Sub Fac) → Nat
   | [] => 0
   | s :: ss => costSub s + costSubs ss
+def costSel : Sel Fac → Nat
+  | .bracket ss => 1 + costSubs ss
+  | .brace ss => 1 + costSubs ss
+  | .dot _ => 1
+  | .dotInt _ => 1
+  | .swizzle _ _ => 1
+def costSels : List (Sel Fac) → Nat
+  | [] => 0
+  | s :: ss => costSel s + costSels ss
+def costArg : Arg Fac → Nat
+  | .pos e => 1 + costE e
+  | .named _ e => 1 + costE e
+def costArgs : List (Arg Fac) → Nat
+  | [] => 0
+  | a :: as => costArg a + costArgs as
+def costBind : Bind Fac → Nat
+  | .mk _ _ e => 1 + costE e
+def costBinds : List (Bind Fac) → Nat
+  | [] => 0
+  | b :: bs => costBind b + costBinds bs
+def costMapping : Mapping Fac → Nat
+  | .mk k v => 1 + costE k + costE v
+def costMaps : List (Mapping Fac) → Nat
+  | [] => 0
+  | m :: ms => costMapping m + costMaps ms
 end
+
+def okEnt (g : Gram) : Ent Fac → Prop
+  | .plain e => okE g e
+  | .keyed k v => okE g k ∧ okE g v ∧ ∀ x, k ≠ .form (.leaf (.var x))
+  | .bind _ _ e => okE g e
+
+def costEnt : Ent Fac → Nat
+  | .plain e => 1 + costE e
+  | .keyed k v => 1 + costE k + costE v
+  | .bind _ _ e => 1 + costE e
 
 def costR : Rest Fac → Nat
   | [] => 0
@@ -570,17 +989,20 @@ theorem listTill_complete {α : Type} (p : List Tok → Option (α × List Tok))
 /-! first tokens, lengths, membership forms of the list predicates -/
 
 def Tok.isStart : Tok → Bool
-  | .lit _ => true | .id _ => true | .lb => true | .lc => true | .lp => true | .dash => true | .bang => true
+  | .lit _ => true | .id _ => true | .lb => true | .lc => true | .lp => true | .dash => true | .bang => true | .bar => true
   | _ => false
 
 theorem rFac_head (g : Gram) : ∀ f : Fac, ∃ t r, rFac g f = t :: r ∧ t.isStart = true
   | .lit _ => ⟨_, _, rfl, rfl⟩
   | .var _ => ⟨_, _, rfl, rfl⟩
-  | .call f args => ⟨.id f, .lp :: (rExs g args ++ [.rp]), by simp [rFac], rfl⟩
+  | .call f args => ⟨.id f, .lp :: (rArgs g args ++ [.rp]), by simp [rFac], rfl⟩
   | .mat rows => ⟨.lb, rRows g rows ++ [.rb], by simp [rFac], rfl⟩
   | .tup es => ⟨.lp, rExs g es ++ [.rp], by simp [rFac], rfl⟩
   | .set es => ⟨.lc, rExs g es ++ [.rc], by simp [rFac], rfl⟩
-  | .slice x subs => ⟨.id x, .lb :: (rSubs g subs ++ [.rb]), by simp [rFac], rfl⟩
+  | .recd bs => ⟨.lc, rBinds g bs ++ [.rc], by simp [rFac], rfl⟩
+  | .map ms => ⟨.lc, (if ms.isEmpty then [.colon] else rMaps g ms) ++ [.rc], by simp [rFac], rfl⟩
+  | .tbl hdr rows => ⟨.bar, rSep (fun f => [.id f.1, .kind f.2]) .sp hdr ++ .bar :: rTRows g rows, by simp [rFac], rfl⟩
+  | .slice x sels => ⟨.id x, rSels g sels, by simp [rFac], rfl⟩
   | .paren t => ⟨.lp, rTrm g t ++ [.rp], by simp [rFac], rfl⟩
   | .neg f => ⟨.dash, rFac g f, by simp [rFac], rfl⟩
   | .not f => ⟨.bang, rFac g f, by simp [rFac], rfl⟩
@@ -643,6 +1065,14 @@ theorem costRows_mem : ∀ rs : List (List Exp), ∀ r ∈ rs, costEs r ≤ cost
     · subst hx; omega
     · have := costRows_mem rs x hx; omega
 
+theorem okTRows_mem (g : Gram) : ∀ rs : List (List Exp), okTRows g rs → ∀ r ∈ rs, r ≠ [] ∧ okEs g r ∧ ∀ e ∈ r, e.lastOpen = false
+  | [], _, _, h => by cases h
+  | r :: rs, h, x, hx => by
+    simp only [okTRows] at h
+    rcases List.mem_cons.mp hx with hx | hx
+    · subst hx; exact h.1
+    · exact okTRows_mem g rs h.2 x hx
+
 theorem okSubs_mem (g : Gram) : ∀ ss : List (Sub Fac), okSubs g ss → ∀ s ∈ ss, okSub g s
   | [], _, _, h => by cases h
   | s :: ss, h, x, hx => by
@@ -658,6 +1088,70 @@ theorem costSubs_mem : ∀ ss : List (Sub Fac), ∀ s ∈ ss, costSub s ≤ cost
     rcases List.mem_cons.mp hx with hx | hx
     · subst hx; omega
     · have := costSubs_mem ss x hx; omega
+
+theorem okSels_mem (g : Gram) : ∀ ss : List (Sel Fac), okSels g ss → ∀ s ∈ ss, okSel g s
+  | [], _, _, h => by cases h
+  | s :: ss, h, x, hx => by
+    simp only [okSels] at h
+    rcases List.mem_cons.mp hx with hx | hx
+    · subst hx; exact h.1
+    · exact okSels_mem g ss h.2 x hx
+
+theorem costSels_mem : ∀ ss : List (Sel Fac), ∀ s ∈ ss, costSel s ≤ costSels ss
+  | [], _, h => by cases h
+  | s :: ss, x, hx => by
+    simp only [costSels]
+    rcases List.mem_cons.mp hx with hx | hx
+    · subst hx; omega
+    · have := costSels_mem ss x hx; omega
+
+theorem okArgs_mem (g : Gram) : ∀ ss : List (Arg Fac), okArgs g ss → ∀ s ∈ ss, okArg g s
+  | [], _, _, h => by cases h
+  | s :: ss, h, x, hx => by
+    simp only [okArgs] at h
+    rcases List.mem_cons.mp hx with hx | hx
+    · subst hx; exact h.1
+    · exact okArgs_mem g ss h.2 x hx
+
+theorem costArgs_mem : ∀ ss : List (Arg Fac), ∀ s ∈ ss, costArg s ≤ costArgs ss
+  | [], _, h => by cases h
+  | s :: ss, x, hx => by
+    simp only [costArgs]
+    rcases List.mem_cons.mp hx with hx | hx
+    · subst hx; omega
+    · have := costArgs_mem ss x hx; omega
+
+theorem okBinds_mem (g : Gram) : ∀ ss : List (Bind Fac), okBinds g ss → ∀ s ∈ ss, okBind g s
+  | [], _, _, h => by cases h
+  | s :: ss, h, x, hx => by
+    simp only [okBinds] at h
+    rcases List.mem_cons.mp hx with hx | hx
+    · subst hx; exact h.1
+    · exact okBinds_mem g ss h.2 x hx
+
+theorem costBinds_mem : ∀ ss : List (Bind Fac), ∀ s ∈ ss, costBind s ≤ costBinds ss
+  | [], _, h => by cases h
+  | s :: ss, x, hx => by
+    simp only [costBinds]
+    rcases List.mem_cons.mp hx with hx | hx
+    · subst hx; omega
+    · have := costBinds_mem ss x hx; omega
+
+theorem okMaps_mem (g : Gram) : ∀ ss : List (Mapping Fac), okMaps g ss → ∀ s ∈ ss, okMapping g s
+  | [], _, _, h => by cases h
+  | s :: ss, h, x, hx => by
+    simp only [okMaps] at h
+    rcases List.mem_cons.mp hx with hx | hx
+    · subst hx; exact h.1
+    · exact okMaps_mem g ss h.2 x hx
+
+theorem costMaps_mem : ∀ ss : List (Mapping Fac), ∀ s ∈ ss, costMapping s ≤ costMaps ss
+  | [], _, h => by cases h
+  | s :: ss, x, hx => by
+    simp only [costMaps]
+    rcases List.mem_cons.mp hx with hx | hx
+    · subst hx; omega
+    · have := costMaps_mem ss x hx; omega
 
 theorem costR_append (a b : Rest Fac) : costR (a ++ b) = costR a + costR b := by
   induction a with
@@ -679,7 +1173,7 @@ theorem okL_parts (g : Gram) : ∀ t : Trm, okL g t → okF g t.first ∧ ∀ p 
   | .node l o r, h => by
     simp only [okL] at h
     have hl := okL_parts g l h.1
-    have hr := okL_parts g r h.2
+    have hr := okL_parts g r h.2.1
     refine ⟨hl.1, ?_⟩
     intro p hp
     simp only [Tree.tail, List.mem_append, List.mem_cons] at hp
@@ -688,20 +1182,60 @@ theorem okL_parts (g : Gram) : ∀ t : Trm, okL g t → okF g t.first ∧ ∀ p 
     · subst hp; exact hr.1
     · exact hr.2 p hp
 
-/-- what may follow a formula: nothing, or a token that continues neither an operand (transpose
-    mark, call or subscript bracket) nor the chain of operators -/
-def NoCont (g : Gram) (rest : List Tok) : Prop :=
-  ∀ t r, rest = t :: r → g.binOp? t = none ∧ t ≠ .quote ∧ t ≠ .lp ∧ t ≠ .lb
+/-- in a flat formula no operand that ends with a table is followed by the subtraction sign -/
+def chainOk (g : Gram) : Fac → Rest Fac → Prop
+  | _, [] => True
+  | f, (o, f') :: ps => (f.open = true → o ≠ g.sub) ∧ chainOk g f' ps
 
-/-- what may follow an expression: as for a formula, and not a range operator -/
-def NoContE (g : Gram) (rest : List Tok) : Prop :=
-  ∀ t r, rest = t :: r → g.binOp? t = none ∧ t ≠ .quote ∧ t ≠ .lp ∧ t ≠ .lb ∧ ∀ i, t ≠ .dots i
+theorem lastOp_append : ∀ (ps : Rest Fac) (f : Fac) (o : Op) (f' : Fac) (qs : Rest Fac),
+    lastOp f (ps ++ (o, f') :: qs) = lastOp f' qs
+  | [], f, o, f', qs => by simp [lastOp]
+  | (o1, f1) :: ps, f, o, f', qs => by simp only [List.cons_append, lastOp]; exact lastOp_append ps f1 o f' qs
+
+theorem chainOk_append (g : Gram) : ∀ (ps : Rest Fac) (f : Fac) (o : Op) (f' : Fac) (qs : Rest Fac),
+    chainOk g f ps → ((lastOp f ps).open = true → o ≠ g.sub) → chainOk g f' qs → chainOk g f (ps ++ (o, f') :: qs)
+  | [], f, o, f', qs, _, h2, h3 => by simp only [List.nil_append, chainOk]; exact ⟨by simpa [lastOp] using h2, h3⟩
+  | (o1, f1) :: ps, f, o, f', qs, h1, h2, h3 => by
+    simp only [List.cons_append, chainOk] at h1 ⊢
+    exact ⟨h1.1, chainOk_append g ps f1 o f' qs h1.2 (by simpa [lastOp] using h2) h3⟩
+
+theorem okL_chain (g : Gram) : ∀ t : Trm, okL g t → chainOk g t.first t.tail
+  | .leaf f, _ => by simp [Tree.tail, chainOk]
+  | .node l o r, h => by
+    simp only [okL] at h
+    simp only [Tree.first, Tree.tail]
+    exact chainOk_append g l.tail l.first o r.first r.tail (okL_chain g l h.1) h.2.2 (okL_chain g r h.2.1)
+
+theorem lastOp_node (l : Trm) (o : Op) (r : Trm) :
+    lastOp (Tree.node l o r).first (Tree.node l o r).tail = lastOp r.first r.tail := by
+  simp only [Tree.first, Tree.tail, lastOp_append]
+
+/-- what may follow an operand that ends with a table: not a token that starts an operand -/
+def NoStart (rest : List Tok) : Prop := ∀ t r, rest = t :: r → t.isStart = false
+
+/-- the tokens that apply to the name before them: the bracket of a call, a subscript bracket or brace, the dot of a
+    field access, the comma of a swizzle -/
+def Tok.isApp : Tok → Bool
+  | .lp => true | .lb => true | .lc => true | .dot => true | .swz => true
+  | _ => false
+
+/-- what may follow a formula: nothing, or a token that continues neither an operand (transpose
+    mark, call bracket, subscript) nor the chain of operators -/
+def NoCont (g : Gram) (rest : List Tok) : Prop :=
+  ∀ t r, rest = t :: r → g.binOp? t = none ∧ t ≠ .quote ∧ t.isApp = false
+
+/-- what may follow an expression that does not end with a table: as for a formula, and not a range operator -/
+def NoContW (g : Gram) (rest : List Tok) : Prop :=
+  ∀ t r, rest = t :: r → g.binOp? t = none ∧ t ≠ .quote ∧ t.isApp = false ∧ ∀ i, t ≠ .dots i
+
+/-- what may follow any expression: moreover not a token that starts an operand -/
+def NoContE (g : Gram) (rest : List Tok) : Prop := NoContW g rest ∧ NoStart rest
 
 /-- what may follow an operand -/
-def NoApp (rest : List Tok) : Prop := ∀ t r, rest = t :: r → t ≠ .lp ∧ t ≠ .lb
+def NoApp (rest : List Tok) : Prop := ∀ t r, rest = t :: r → t.isApp = false
 
-theorem NoContE.noCont {g : Gram} {rest : List Tok} (h : NoContE g rest) : NoCont g rest :=
-  fun t r e => let ⟨a, b, c, d, _⟩ := h t r e; ⟨a, b, c, d⟩
+theorem NoContW.noCont {g : Gram} {rest : List Tok} (h : NoContW g rest) : NoCont g rest :=
+  fun t r e => let ⟨a, b, c, _⟩ := h t r e; ⟨a, b, c⟩
 
 theorem binOp_opTok (g : Gram) (o : Op) (ho : 1 ≤ o.lvl ∧ o.lvl ≤ g.N) : g.binOp? (g.opTok o) = some o := by
   have hl : g.lvlOk o = true := by simp [Gram.lvlOk, ho.1, ho.2]
@@ -715,7 +1249,7 @@ theorem opTok_cases (g : Gram) (o : Op) : g.opTok o = .dash ∨ g.opTok o = .op 
 
 /-- what follows an operand inside a rendering neither transposes nor applies it -/
 theorem head_rRest (g : Gram) (ps : Rest Fac) (rest : List Tok) (h : NoCont g rest) :
-    ∀ t r, rRest g ps ++ rest = t :: r → t ≠ .quote ∧ t ≠ .lp ∧ t ≠ .lb := by
+    ∀ t r, rRest g ps ++ rest = t :: r → t ≠ .quote ∧ t.isApp = false := by
   intro t r e
   cases ps with
   | nil => simp only [rRest, List.nil_append] at e; exact (h t r e).2
@@ -724,7 +1258,7 @@ theorem head_rRest (g : Gram) (ps : Rest Fac) (rest : List Tok) (h : NoCont g re
     simp only [rRest, List.cons_append] at e
     have : t = g.opTok o := (List.cons.inj e).1.symm
     rw [this]
-    rcases opTok_cases g o with h' | h' <;> rw [h'] <;> simp
+    rcases opTok_cases g o with h' | h' <;> rw [h'] <;> simp [Tok.isApp]
 
 theorem post_noquote (f : Fac) (rest : List Tok) (h : ∀ t r, rest = t :: r → t ≠ .quote) : post f rest = (f, rest) := by
   cases rest with
@@ -737,25 +1271,196 @@ def Tok.isStop : Tok → Bool
   | _ => false
 
 theorem noContE_stop (g : Gram) (c : Tok) (x : List Tok) (h : c.isStop = true) : NoContE g (c :: x) := by
-  intro t r e
-  have : t = c := (List.cons.inj e).1.symm
-  subst this
-  cases t <;> simp [Tok.isStop] at h <;> simp [Gram.binOp?]
+  constructor
+  · intro t r e
+    have : t = c := (List.cons.inj e).1.symm
+    subst this
+    cases t <;> simp [Tok.isStop] at h <;> simp [Gram.binOp?, Tok.isApp]
+  · intro t r e
+    have : t = c := (List.cons.inj e).1.symm
+    subst this
+    cases t <;> simp [Tok.isStop] at h <;> rfl
 
-theorem noContE_nil (g : Gram) : NoContE g [] := fun _ _ e => by cases e
+theorem noContE_nil (g : Gram) : NoContE g [] := by
+  constructor <;> (intro t r e; cases e)
+
+theorem noContW_bar (g : Gram) (x : List Tok) : NoContW g (.bar :: x) := by
+  intro t r e
+  have : t = .bar := (List.cons.inj e).1.symm
+  subst this
+  simp [Gram.binOp?, Tok.isApp]
 
 theorem isStart_ne (t : Tok) (h : t.isStart = true) : t ≠ .rp ∧ t ≠ .rb ∧ t ≠ .rc ∧ t ≠ .colon := by
   cases t <;> simp [Tok.isStart] at h <;> simp
 
-/-- the five claims for fuel `n` -/
+/-- the first token of a subscript -/
+theorem rSel_head (g : Gram) (s : Sel Fac) : ∃ t r, rSel g s = t :: r ∧ (t = .lb ∨ t = .lc ∨ t = .dot) := by
+  cases s with
+  | bracket ss => exact ⟨.lb, rSubs g ss ++ [.rb], by simp [rSel], Or.inl rfl⟩
+  | brace ss => exact ⟨.lc, rSubs g ss ++ [.rc], by simp [rSel], Or.inr (Or.inl rfl)⟩
+  | dot y => exact ⟨.dot, [.id y], by simp [rSel], Or.inr (Or.inr rfl)⟩
+  | dotInt k => exact ⟨.dot, [.lit k], by simp [rSel], Or.inr (Or.inr rfl)⟩
+  | swizzle y ys => exact ⟨.dot, .id y :: .swz :: rSep (fun z => [.id z]) .swz ys, by simp [rSel], Or.inr (Or.inr rfl)⟩
+
+theorem rSels_head (g : Gram) (s : Sel Fac) (ss : List (Sel Fac)) (rest : List Tok) :
+    ∃ t r, rSels g (s :: ss) ++ rest = t :: r ∧ (t = .lb ∨ t = .lc ∨ t = .dot) := by
+  obtain ⟨t, r, e, h⟩ := rSel_head g s
+  exact ⟨t, r ++ (rSels g ss ++ rest), by simp [rSels, e], h⟩
+
+/-! names followed by a colon or a kind annotation: only a bare name renders like that -/
+
+def Tok.isKey : Tok → Bool
+  | .colon => true | .kind _ => true | _ => false
+
+theorem opTok_notKey (g : Gram) (o : Op) : (g.opTok o).isKey = false := by
+  rcases opTok_cases g o with h | h <;> rw [h] <;> rfl
+
+/-- a canonical operand whose rendering, followed by `rest`, starts with a name and then a colon or a kind
+    annotation is that bare name (the colon or annotation belongs to `rest`) -/
+theorem rFac_key (g : Gram) : ∀ (f : Fac) (rest : List Tok) (x : Nat) (t : Tok) (r' : List Tok), okF g f →
+    rFac g f ++ rest = .id x :: t :: r' → t.isKey = true → f = .var x ∧ rest = t :: r'
+  | .lit _, rest, x, t, r', _, h, _ => by simp [rFac] at h
+  | .var y, rest, x, t, r', _, h, _ => by
+    simp only [rFac, List.cons_append, List.nil_append, List.cons.injEq, Tok.id.injEq] at h
+    exact ⟨by rw [h.1], h.2⟩
+  | .call _ _, rest, x, t, r', _, h, hk => by
+    simp only [rFac, List.cons_append, List.cons.injEq] at h
+    obtain ⟨_, h2, _⟩ := h; subst h2; simp [Tok.isKey] at hk
+  | .slice _ sels, rest, x, t, r', hok, h, hk => by
+    simp only [okF] at hok
+    cases sels with
+    | nil => exact absurd rfl hok.1
+    | cons s ss =>
+      obtain ⟨t0, r0, e0, ht0⟩ := rSels_head g s ss rest
+      simp only [rFac, List.cons_append, e0, List.cons.injEq] at h
+      obtain ⟨_, h2, _⟩ := h; subst h2
+      rcases ht0 with h' | h' | h' <;> subst h' <;> simp [Tok.isKey] at hk
+  | .mat _, rest, x, t, r', _, h, _ => by simp [rFac] at h
+  | .tup _, rest, x, t, r', _, h, _ => by simp [rFac] at h
+  | .set _, rest, x, t, r', _, h, _ => by simp [rFac] at h
+  | .recd _, rest, x, t, r', _, h, _ => by simp [rFac] at h
+  | .map _, rest, x, t, r', _, h, _ => by simp [rFac] at h
+  | .paren _, rest, x, t, r', _, h, _ => by simp [rFac] at h
+  | .neg _, rest, x, t, r', _, h, _ => by simp [rFac] at h
+  | .not _, rest, x, t, r', _, h, _ => by simp [rFac] at h
+  | .tr f, rest, x, t, r', hok, h, hk => by
+    simp only [okF] at hok
+    have h' : rFac g f ++ (.quote :: rest) = .id x :: t :: r' := by simpa [rFac] using h
+    obtain ⟨_, h2⟩ := rFac_key g f (.quote :: rest) x t r' hok.2 h' hk
+    have : t = .quote := (List.cons.inj h2).1.symm
+    subst this; simp [Tok.isKey] at hk
+
+theorem tail_nil_leaf : ∀ t : Trm, t.tail = [] → t = .leaf t.first
+  | .leaf f, _ => rfl
+  | .node l o r, h => by simp [Tree.tail] at h
+
+theorem rTrm_key (g : Gram) (t : Trm) (rest : List Tok) (x : Nat) (tk : Tok) (r' : List Tok) (hok : okL g t)
+    (h : rTrm g t ++ rest = .id x :: tk :: r') (hk : tk.isKey = true) : t = .leaf (.var x) ∧ rest = tk :: r' := by
+  rw [rTrm_flat, List.append_assoc] at h
+  obtain ⟨h1, h2⟩ := rFac_key g t.first _ x tk r' (okL_parts g t hok).1 h hk
+  cases htl : t.tail with
+  | nil =>
+    rw [htl] at h2; simp only [rRest, List.nil_append] at h2
+    exact ⟨by rw [tail_nil_leaf t htl, h1], h2⟩
+  | cons p ps =>
+    obtain ⟨o, f⟩ := p
+    rw [htl] at h2; simp only [rRest, List.cons_append] at h2
+    have : tk = g.opTok o := (List.cons.inj h2).1.symm
+    rw [this, opTok_notKey] at hk; cases hk
+
+theorem rEx_key (g : Gram) (e : Exp) (rest : List Tok) (x : Nat) (tk : Tok) (r' : List Tok) (hok : okE g e)
+    (h : rEx g e ++ rest = .id x :: tk :: r') (hk : tk.isKey = true) : e = .form (.leaf (.var x)) ∧ rest = tk :: r' := by
+  cases e with
+  | form t =>
+    simp only [rEx] at h; simp only [okE] at hok
+    obtain ⟨h1, h2⟩ := rTrm_key g t rest x tk r' hok.2.2 h hk
+    exact ⟨by rw [h1], h2⟩
+  | range a i b =>
+    simp only [rEx, List.append_assoc, List.cons_append] at h; simp only [okE] at hok
+    obtain ⟨_, h2⟩ := rTrm_key g a _ x tk r' hok.1.2.2 h hk
+    have : tk = .dots i := (List.cons.inj h2).1.symm
+    subst this; simp [Tok.isKey] at hk
+  | range3 a i1 s i2 b =>
+    simp only [rEx, List.append_assoc, List.cons_append] at h; simp only [okE] at hok
+    obtain ⟨_, h2⟩ := rTrm_key g a _ x tk r' hok.1.2.2 h hk
+    have : tk = .dots i1 := (List.cons.inj h2).1.symm
+    subst this; simp [Tok.isKey] at hk
+
+/-- what may follow a subscript: not the comma of a swizzle -/
+def NoSwz (rest : List Tok) : Prop := ∀ t r, rest = t :: r → t ≠ .swz
+
+/-- what follows an element of a list: a separator or a closing bracket -/
+def StopHead (rest : List Tok) : Prop := ∃ c x, rest = c :: x ∧ c.isStop = true
+
+theorem noContE_colon (g : Gram) (x : List Tok) : NoContE g (.colon :: x) := by
+  constructor
+  · intro t r e
+    have : t = .colon := (List.cons.inj e).1.symm
+    subst this
+    simp [Gram.binOp?, Tok.isApp]
+  · intro t r e
+    have : t = .colon := (List.cons.inj e).1.symm
+    subst this
+    rfl
+
+/-- the chain after an operand: the condition of `chainOk` from its first operand on -/
+def chainOkR (g : Gram) : Rest Fac → Prop
+  | [] => True
+  | (_, f) :: ps => chainOk g f ps
+
+def lastOpenR : Rest Fac → Bool
+  | [] => false
+  | (_, f) :: ps => (lastOp f ps).open
+
+/-- an expression is read back before anything that does not continue it; when it ends with a table, what follows
+    must moreover not start an operand (it would be read as another row) -/
+def EClaim (g : Gram) (n : Nat) : Prop :=
+  ∀ e, costE e ≤ n → okE g e → ∀ rest, NoContW g rest → (e.lastOpen = true → NoStart rest) →
+    pEx g n (rEx g e ++ rest) = some (e, rest)
+
+theorem EClaim.strong {g : Gram} {n : Nat} (h : EClaim g n) :
+    ∀ e, costE e ≤ n → okE g e → ∀ rest, NoContE g rest → pEx g n (rEx g e ++ rest) = some (e, rest) :=
+  fun e hc hok rest hr => h e hc hok rest hr.1 (fun _ => hr.2)
+
+/-- what follows an operand inside a flat formula is acceptable after a table -/
+theorem follow_open (g : Gram) (f : Fac) (ps : Rest Fac) (rest : List Tok) (hch : chainOk g f ps)
+    (hlast : (lastOp f ps).open = true → NoStart rest) : f.open = true → NoStart (rRest g ps ++ rest) := by
+  intro ho
+  cases ps with
+  | nil => simpa [rRest, lastOp] using hlast ho
+  | cons p ps =>
+    obtain ⟨o, f'⟩ := p
+    simp only [chainOk] at hch
+    have hne := hch.1 ho
+    intro t r e
+    simp only [rRest, List.cons_append] at e
+    have : t = g.opTok o := (List.cons.inj e).1.symm
+    subst this
+    simp [Gram.opTok, hne, Tok.isStart]
+
+theorem chainOkR_of (g : Gram) (f : Fac) (ps : Rest Fac) (h : chainOk g f ps) : chainOkR g ps := by
+  cases ps with
+  | nil => trivial
+  | cons p ps => obtain ⟨o, f'⟩ := p; exact h.2
+
+theorem lastOpenR_of (f : Fac) (ps : Rest Fac) (h : lastOpenR ps = true) : (lastOp f ps).open = true := by
+  cases ps with
+  | nil => simp [lastOpenR] at h
+  | cons p ps => obtain ⟨o, f'⟩ := p; simpa [lastOpenR, lastOp] using h
+
+/-- the eight claims for fuel `n` -/
 def RT (g : Gram) (n : Nat) : Prop :=
-  (∀ f, costF f ≤ n → okF g f → ∀ rest, (∀ t r, rest = t :: r → t ≠ .quote ∧ t ≠ .lp ∧ t ≠ .lb) →
-      pFac g n (rFac g f ++ rest) = some (f, rest)) ∧
-  (∀ ps, costR ps + 1 ≤ n → OpsIn g.N ps → (∀ p ∈ ps, okF g p.2) → ∀ rest, NoCont g rest →
-      pChain g n (rRest g ps ++ rest) = some (ps, rest)) ∧
-  (∀ t, costT t + 2 ≤ n → okT g t → ∀ rest, NoCont g rest → pForm g n (rTrm g t ++ rest) = some (t, rest)) ∧
-  (∀ e, costE e ≤ n → okE g e → ∀ rest, NoContE g rest → pEx g n (rEx g e ++ rest) = some (e, rest)) ∧
-  (∀ s, costSub s ≤ n → okSub g s → ∀ rest, NoContE g rest → pSub g n (rSub g s ++ rest) = some (s, rest))
+  (∀ f, costF f ≤ n → okF g f → ∀ rest, (∀ t r, rest = t :: r → t ≠ .quote ∧ t.isApp = false) →
+      (f.open = true → NoStart rest) → pFac g n (rFac g f ++ rest) = some (f, rest)) ∧
+  (∀ ps, costR ps + 1 ≤ n → OpsIn g.N ps → (∀ p ∈ ps, okF g p.2) → chainOkR g ps → ∀ rest, NoCont g rest →
+      (lastOpenR ps = true → NoStart rest) → pChain g n (rRest g ps ++ rest) = some (ps, rest)) ∧
+  (∀ t, costT t + 2 ≤ n → okT g t → ∀ rest, NoCont g rest → ((lastOp t.first t.tail).open = true → NoStart rest) →
+      pForm g n (rTrm g t ++ rest) = some (t, rest)) ∧
+  EClaim g n ∧
+  (∀ s, costSub s ≤ n → okSub g s → ∀ rest, NoContE g rest → pSub g n (rSub g s ++ rest) = some (s, rest)) ∧
+  (∀ a, costArg a ≤ n → okArg g a → ∀ rest, StopHead rest → pArg g n (rArg g a ++ rest) = some (a, rest)) ∧
+  (∀ a, costEnt a ≤ n → okEnt g a → ∀ rest, StopHead rest → pEnt g n (rEnt g a ++ rest) = some (a, rest)) ∧
+  (∀ s, costSel s ≤ n → okSel g s → ∀ rest, NoSwz rest → pSel g n (rSel g s ++ rest) = some (s, rest))
 
 /-- a list of expressions between brackets is read back -/
 theorem exList_complete (g : Gram) (n : Nat)
@@ -775,6 +1480,129 @@ theorem exList_complete (g : Gram) (n : Nat)
     · subst h; exact noContE_stop g _ _ (by rcases hc with h | h <;> subst h <;> rfl)
     · subst h; exact noContE_stop g _ _ rfl
 
+/-- the arguments of a call are read back -/
+theorem argList_complete (g : Gram) (n : Nat)
+    (ihA : ∀ a, costArg a ≤ n → okArg g a → ∀ rest, StopHead rest → pArg g n (rArg g a ++ rest) = some (a, rest))
+    (args : List (Arg Fac)) (hcost : costArgs args ≤ n) (hok : okArgs g args) (rest : List Tok) :
+    listTill (pArg g n) .comma .rp (rArgs g args ++ .rp :: rest) = some (args, rest) := by
+  rw [rArgs_eq]
+  apply listTill_complete
+  · decide
+  · intro a ha
+    cases a with
+    | pos e =>
+      obtain ⟨t, r', e1, hs⟩ := rEx_head g e
+      exact ⟨t, r', by simp [rArg, e1], (isStart_ne t hs).1⟩
+    | named x e => exact ⟨.id x, .colon :: rEx g e, by simp only [rArg], by simp⟩
+  · intro a ha tail htail
+    apply ihA a (Nat.le_trans (costArgs_mem args a ha) hcost) (okArgs_mem g args hok a ha)
+    rcases htail with h | ⟨x, h⟩ <;> subst h <;> exact ⟨_, _, rfl, rfl⟩
+
+theorem rEnt_head (g : Gram) (a : Ent Fac) : ∃ t r, rEnt g a = t :: r ∧ t.isStart = true := by
+  cases a with
+  | plain e => simpa [rEnt] using rEx_head g e
+  | keyed k v =>
+    obtain ⟨t, r', e1, hs⟩ := rEx_head g k
+    exact ⟨t, r' ++ .colon :: rEx g v, by simp [rEnt, e1], hs⟩
+  | bind x k e => exact ⟨.id x, (match k with | some k => [.kind k] | none => []) ++ .colon :: rEx g e, rfl, rfl⟩
+
+/-- the entries between braces are read back -/
+theorem entList_complete (g : Gram) (n : Nat)
+    (ihN : ∀ a, costEnt a ≤ n → okEnt g a → ∀ rest, StopHead rest → pEnt g n (rEnt g a ++ rest) = some (a, rest))
+    (ents : List (Ent Fac)) (h : ∀ a ∈ ents, costEnt a ≤ n ∧ okEnt g a) (rest : List Tok) :
+    listTill (pEnt g n) .comma .rc (rSep (rEnt g) .comma ents ++ .rc :: rest) = some (ents, rest) := by
+  apply listTill_complete
+  · decide
+  · intro a ha
+    obtain ⟨t, r', e1, hs⟩ := rEnt_head g a
+    exact ⟨t, r', e1, (isStart_ne t hs).2.2.1⟩
+  · intro a ha tail htail
+    apply ihN a (h a ha).1 (h a ha).2
+    rcases htail with h | ⟨x, h⟩ <;> subst h <;> exact ⟨_, _, rfl, rfl⟩
+
+theorem pFac_brace (g : Gram) (n : Nat) (r : List Tok) (h : ∀ r', r ≠ .colon :: .rc :: r') :
+    pFac g (n + 1) (.lc :: r) = (match listTill (pEnt g n) .comma .rc r with
+       | some (ents, r') => (match classify ents with | some f => some (post f r') | none => none)
+       | none => none) := by
+  simp only [pFac] <;> rfl
+
+/-- a literal between braces whose entries are classified as `f` is read back as `f` -/
+theorem brace_complete (g : Gram) (n : Nat)
+    (ihN : ∀ a, costEnt a ≤ n → okEnt g a → ∀ rest, StopHead rest → pEnt g n (rEnt g a ++ rest) = some (a, rest))
+    (ents : List (Ent Fac)) (hne : ents ≠ []) (h : ∀ a ∈ ents, costEnt a ≤ n ∧ okEnt g a) (f : Fac)
+    (hcl : classify ents = some f) (rest : List Tok) :
+    pFac g (n + 1) (.lc :: (rSep (rEnt g) .comma ents ++ .rc :: rest)) = some (post f rest) := by
+  have hl := entList_complete g n ihN ents h rest
+  rw [pFac_brace, hl]
+  · simp only [hcl]
+  · intro r' he
+    cases ents with
+    | nil => exact hne rfl
+    | cons a as =>
+      obtain ⟨t, r0, e1, hs⟩ := rEnt_head g a
+      have : ∃ r1, rSep (rEnt g) .comma (a :: as) ++ .rc :: rest = t :: r1 := by
+        cases as with
+        | nil => exact ⟨r0 ++ .rc :: rest, by simp [rSep, e1]⟩
+        | cons b bs => exact ⟨r0 ++ .comma :: (rSep (rEnt g) .comma (b :: bs) ++ .rc :: rest), by simp [rSep, e1]⟩
+      obtain ⟨r1, e2⟩ := this
+      rw [e2] at he
+      have : t = .colon := (List.cons.inj he).1
+      exact (isStart_ne t hs).2.2.2 this
+
+theorem allBind_entB : ∀ bs : List (Bind Fac), allBind (bs.map entB) = some bs
+  | [] => rfl
+  | .mk x k e :: bs => by simp [entB, allBind, allBind_entB bs]
+
+/-- the entry of a mapping: a binding without a kind when its key is a bare name -/
+theorem entM_cases (m : Mapping Fac) :
+    (∃ x v, m = .mk (.form (.leaf (.var x))) v ∧ entM m = .bind x none v) ∨
+    (∃ k v, m = .mk k v ∧ entM m = .keyed k v ∧ ∀ x, k ≠ .form (.leaf (.var x))) := by
+  unfold entM
+  split
+  · next x v => exact Or.inl ⟨x, v, rfl, rfl⟩
+  · next k v hnb => exact Or.inr ⟨k, v, rfl, rfl, fun x hx => hnb x hx⟩
+
+/-- the condition on canonical maps, spelled out: some key is not a bare name -/
+theorem allBind_entM_none : ∀ ms : List (Mapping Fac),
+    (∃ m ∈ ms, ∀ x v, m ≠ .mk (.form (.leaf (.var x))) v) → allBind (ms.map entM) = none
+  | [], h => by obtain ⟨m, hm, _⟩ := h; cases hm
+  | m :: ms, h => by
+    simp only [List.map_cons]
+    rcases entM_cases m with ⟨x, v, hm, he⟩ | ⟨k, v, hm, he, _⟩
+    · rw [he]
+      obtain ⟨m', hm', hne⟩ := h
+      rcases List.mem_cons.mp hm' with h1 | h1
+      · subst h1; exact absurd hm (hne x v)
+      · simp only [allBind, allBind_entM_none ms ⟨m', h1, hne⟩]
+    · rw [he]; simp [allBind]
+
+theorem allKeyed_entM : ∀ ms : List (Mapping Fac), allKeyed (ms.map entM) = some ms
+  | [] => rfl
+  | m :: ms => by
+    have ih := allKeyed_entM ms
+    simp only [List.map_cons]
+    rcases entM_cases m with ⟨x, v, hm, he⟩ | ⟨k, v, hm, he, _⟩ <;> rw [he, hm] <;> simp only [allKeyed, ih]
+
+theorem allPlain_plain : ∀ es : List Exp, allPlain (es.map .plain) = some es
+  | [] => rfl
+  | e :: es => by simp [allPlain, allPlain_plain es]
+
+theorem classify_plain (e : Exp) (es : List Exp) : classify ((e :: es).map .plain) = some (.set (e :: es)) := by
+  have h3 := allPlain_plain (e :: es)
+  simp only [List.map_cons] at h3 ⊢
+  simp only [classify, allBind, allKeyed, h3]
+
+theorem classify_entB (b : Bind Fac) (bs : List (Bind Fac)) : classify ((b :: bs).map entB) = some (.recd (b :: bs)) := by
+  have h3 := allBind_entB (b :: bs)
+  simp only [List.map_cons] at h3 ⊢
+  simp only [classify, h3]
+
+theorem classify_entM (m : Mapping Fac) (ms : List (Mapping Fac)) (h : allBind ((m :: ms).map entM) = none) :
+    classify ((m :: ms).map entM) = some (.map (m :: ms)) := by
+  have h3 := allKeyed_entM (m :: ms)
+  simp only [List.map_cons] at h3 h ⊢
+  simp only [classify, h3, h]
+
 /-- a row of a matrix is read back -/
 theorem row_complete (g : Gram) (n : Nat)
     (ihE : ∀ e, costE e ≤ n → okE g e → ∀ rest, NoContE g rest → pEx g n (rEx g e ++ rest) = some (e, rest))
@@ -792,30 +1620,182 @@ theorem row_complete (g : Gram) (n : Nat)
   · have := rSep_length_ge (rEx g) .sp row (fun a _ => by obtain ⟨t, r', e, _⟩ := rEx_head g a; rw [e]; simp)
     simp only [List.length_append]; omega
 
-theorem noApp_of (rest : List Tok) (h : ∀ t r, rest = t :: r → t ≠ .quote ∧ t ≠ .lp ∧ t ≠ .lb) : NoApp rest :=
+theorem noApp_of (rest : List Tok) (h : ∀ t r, rest = t :: r → t ≠ .quote ∧ t.isApp = false) : NoApp rest :=
   fun t r e => (h t r e).2
+
+theorem pSel_none (g : Gram) (n : Nat) (rest : List Tok) (h : NoApp rest) : pSel g n rest = none := by
+  cases n with
+  | zero => simp [pSel]
+  | succ n =>
+    cases rest with
+    | nil => simp [pSel]
+    | cons t r =>
+      have := h t r rfl
+      cases t <;> simp [Tok.isApp] at this <;> simp [pSel]
+
+theorem pFac_name (g : Gram) (n : Nat) (x : Nat) (r : List Tok) (h : ∀ r', r ≠ .lp :: r') :
+    pFac g (n + 1) (.id x :: r) = (match many (pSel g n) r.length r with
+       | ([], r') => some (post (.var x) r')
+       | (sels, r') => some (post (.slice x sels) r')) := by
+  simp only [pFac] <;> rfl
+
+/-- a list of subscripts between brackets or braces is read back -/
+theorem subs_complete (g : Gram) (n : Nat)
+    (ihS : ∀ s, costSub s ≤ n → okSub g s → ∀ rest, NoContE g rest → pSub g n (rSub g s ++ rest) = some (s, rest))
+    (subs : List (Sub Fac)) (hne : subs ≠ []) (hc : costSubs subs ≤ n) (hok : okSubs g subs)
+    (c : Tok) (hcl : c = .rb ∨ c = .rc) (rest : List Tok) :
+    sepBy (pSub g n) .comma (rSubs g subs ++ c :: rest).length (rSubs g subs ++ c :: rest) = some (subs, c :: rest) := by
+  rw [rSubs_eq]
+  apply sepBy_complete (pSub g n) (rSub g) .comma (c :: rest)
+  · intro t r' e; cases e; rcases hcl with h | h <;> subst h <;> decide
+  · exact hne
+  · intro s hs tail htail
+    apply ihS s (Nat.le_trans (costSubs_mem subs s hs) hc) (okSubs_mem g subs hok s hs)
+    rcases htail with h | ⟨y, h⟩
+    · subst h; exact noContE_stop g _ _ (by rcases hcl with h | h <;> subst h <;> rfl)
+    · subst h; exact noContE_stop g _ _ rfl
+  · have := rSep_length_ge (rSub g) .comma subs (fun s _ => by
+      cases s with
+      | all => simp [rSub]
+      | ex e => obtain ⟨t, r', e1, _⟩ := rEx_head g e; simp [rSub, e1])
+    simp only [List.length_append]; omega
+
+/-- the subscripts after a name are read back -/
+theorem sels_complete (g : Gram) (n : Nat)
+    (ihL : ∀ s, costSel s ≤ n → okSel g s → ∀ rest, NoSwz rest → pSel g n (rSel g s ++ rest) = some (s, rest))
+    (sels : List (Sel Fac)) (hc : costSels sels ≤ n) (hok : okSels g sels) (rest : List Tok) (hna : NoApp rest) :
+    many (pSel g n) (rSels g sels ++ rest).length (rSels g sels ++ rest) = (sels, rest) := by
+  rw [rSels_eq]
+  have := many_complete (pSel g n) (rSel g) rest NoSwz
+    (by intro t r e; have := hna t r e; intro h; subst h; simp [Tok.isApp] at this)
+    (pSel_none g n rest hna) sels
+    (by
+      intro s hs tail hq
+      refine ⟨ihL s (Nat.le_trans (costSels_mem sels s hs) hc) (okSels_mem g sels hok s hs) tail hq, ?_⟩
+      obtain ⟨t, r, e, ht⟩ := rSel_head g s
+      intro t' r' e'
+      rw [e] at e'
+      have : t' = t := (List.cons.inj e').1.symm
+      subst this
+      rcases ht with h | h | h <;> subst h <;> simp)
+  apply this.2
+  have hl := rCat_length_ge (rSel g) sels (fun s _ => by obtain ⟨t, r, e, _⟩ := rSel_head g s; rw [e]; simp)
+  simp only [List.length_append]; omega
+
+/-! table literals -/
+
+theorem pFac_nonstart (g : Gram) (n : Nat) (ts : List Tok) (h : NoStart ts) : pFac g n ts = none := by
+  cases n with
+  | zero => simp [pFac]
+  | succ n =>
+    cases ts with
+    | nil => simp [pFac]
+    | cons t r =>
+      have := h t r rfl
+      cases t <;> simp [Tok.isStart] at this <;> simp [pFac]
+
+theorem pEx_nonstart (g : Gram) (n : Nat) (ts : List Tok) (h : NoStart ts) : pEx g n ts = none := by
+  cases n with
+  | zero => simp [pEx]
+  | succ n =>
+    have : pForm g n ts = none := by
+      cases n with
+      | zero => simp [pForm]
+      | succ n => simp [pForm, pFac_nonstart g n ts h]
+    simp [pEx, this]
+
+theorem sepBy_none {α : Type} (p : List Tok → Option (α × List Tok)) (sep : Tok) (k : Nat) (ts : List Tok) (h : p ts = none) :
+    sepBy p sep k ts = none := by
+  cases k <;> simp [sepBy, h]
+
+theorem rowOf_nonstart (g : Gram) (n : Nat) (ts : List Tok) (h : NoStart ts) : rowOf (pEx g n) ts = none := by
+  simp [rowOf, sepBy_none _ _ _ _ (pEx_nonstart g n ts h)]
+
+/-- a row of a table is read back: its cells do not end with a table, so the bar after the last is the end of the row -/
+theorem trow_complete (g : Gram) (n : Nat) (ihE : EClaim g n)
+    (row : List Exp) (hne : row ≠ []) (hcost : costEs row ≤ n) (hok : okEs g row) (hcl : ∀ e ∈ row, e.lastOpen = false) (x : List Tok) :
+    rowOf (pEx g n) ((rRow g row ++ [.bar]) ++ x) = some (row, x) := by
+  have hs : sepBy (pEx g n) .sp (rRow g row ++ .bar :: x).length (rRow g row ++ .bar :: x) = some (row, .bar :: x) := by
+    rw [rRow_eq]
+    apply sepBy_complete (pEx g n) (rEx g) .sp (.bar :: x)
+    · intro t r' e; cases e; decide
+    · exact hne
+    · intro a ha tail htail
+      apply ihE a (Nat.le_trans (costEs_mem row a ha) hcost) (okEs_mem g row hok a ha)
+      · rcases htail with h | ⟨y, h⟩
+        · subst h; exact noContW_bar g _
+        · subst h; exact (noContE_stop g _ _ rfl).1
+      · intro ho; rw [hcl a ha] at ho; cases ho
+    · have := rSep_length_ge (rEx g) .sp row (fun a _ => by obtain ⟨t, r', e, _⟩ := rEx_head g a; rw [e]; simp)
+      simp only [List.length_append]; omega
+  simp only [List.append_assoc, List.cons_append, List.nil_append, rowOf, hs]
+
+theorem pFac_bar (g : Gram) (n : Nat) (r : List Tok) :
+    pFac g (n + 1) (.bar :: r) = (match sepBy pField .sp r.length r with
+       | some (hdr, .bar :: r1) =>
+         (match many (rowOf (pEx g n)) r1.length r1 with
+          | ([], _) => none
+          | (rows, r2) => some (post (.tbl hdr rows) r2))
+       | _ => none) := by
+  simp only [pFac] <;> rfl
+
+theorem tbl_complete (g : Gram) (n : Nat) (ihE : EClaim g n) (hdr : List (Nat × Nat)) (rows : List (List Exp))
+    (hc : costRows rows ≤ n) (hok : hdr ≠ [] ∧ rows ≠ [] ∧ okTRows g rows) (rest : List Tok) (hns : NoStart rest) :
+    pFac g (n + 1) (rFac g (.tbl hdr rows) ++ rest) = some (post (.tbl hdr rows) rest) := by
+  have hh : sepBy pField .sp (rSep (fun f : Nat × Nat => [Tok.id f.1, Tok.kind f.2]) .sp hdr ++ .bar :: (rTRows g rows ++ rest)).length
+      (rSep (fun f : Nat × Nat => [Tok.id f.1, Tok.kind f.2]) .sp hdr ++ .bar :: (rTRows g rows ++ rest)) = some (hdr, .bar :: (rTRows g rows ++ rest)) := by
+    apply sepBy_complete pField (fun f : Nat × Nat => [Tok.id f.1, Tok.kind f.2]) .sp (.bar :: (rTRows g rows ++ rest))
+    · intro t r' e; cases e; decide
+    · exact hok.1
+    · intro f _ tail _; rfl
+    · have := rSep_length_ge (fun f : Nat × Nat => [Tok.id f.1, Tok.kind f.2]) .sp hdr (fun _ _ => by simp)
+      simp only [List.length_append]; omega
+  have hm : many (rowOf (pEx g n)) (rTRows g rows ++ rest).length (rTRows g rows ++ rest) = (rows, rest) := by
+    rw [rTRows_eq]
+    have := many_complete (rowOf (pEx g n)) (fun row => rRow g row ++ [Tok.bar]) rest (fun _ => True) trivial
+      (rowOf_nonstart g n rest hns) rows
+      (by
+        intro row hrow tail _
+        obtain ⟨hne, hokr, hcl⟩ := okTRows_mem g rows hok.2.2 row hrow
+        have hcr := costRows_mem rows row hrow
+        exact ⟨trow_complete g n ihE row hne (by omega) hokr hcl tail, trivial⟩)
+    apply this.2
+    have hl := rCat_length_ge (fun row => rRow g row ++ [Tok.bar]) rows (fun _ _ => by simp)
+    simp only [List.length_append]; omega
+  simp only [rFac, List.cons_append, List.append_assoc]
+  rw [pFac_bar, hh]
+  simp only [hm]
+  cases rows with
+  | nil => exact absurd rfl hok.2.1
+  | cons r rs => rfl
 
 /-- the operands that are not prefixed or transposed: what `factor` reads before the optional
     transpose mark -/
 theorem rt_base (g : Gram) (n : Nat)
-    (ihT : ∀ t, costT t + 2 ≤ n → okT g t → ∀ rest, NoCont g rest → pForm g n (rTrm g t ++ rest) = some (t, rest))
+    (ihE0 : EClaim g n)
     (ihE : ∀ e, costE e ≤ n → okE g e → ∀ rest, NoContE g rest → pEx g n (rEx g e ++ rest) = some (e, rest))
-    (ihS : ∀ s, costSub s ≤ n → okSub g s → ∀ rest, NoContE g rest → pSub g n (rSub g s ++ rest) = some (s, rest)) :
-    ∀ f, f.isBase = true → costF f ≤ n + 1 → okF g f → ∀ rest, NoApp rest →
+    (ihS : ∀ s, costSub s ≤ n → okSub g s → ∀ rest, NoContE g rest → pSub g n (rSub g s ++ rest) = some (s, rest))
+    (ihA : ∀ a, costArg a ≤ n → okArg g a → ∀ rest, StopHead rest → pArg g n (rArg g a ++ rest) = some (a, rest))
+    (ihN : ∀ a, costEnt a ≤ n → okEnt g a → ∀ rest, StopHead rest → pEnt g n (rEnt g a ++ rest) = some (a, rest))
+    (ihL : ∀ s, costSel s ≤ n → okSel g s → ∀ rest, NoSwz rest → pSel g n (rSel g s ++ rest) = some (s, rest)) :
+    ∀ f, f.isBase = true → costF f ≤ n + 1 → okF g f → ∀ rest, NoApp rest → (f.open = true → NoStart rest) →
       pFac g (n + 1) (rFac g f ++ rest) = some (post f rest) := by
-  intro f hb hc hok rest hna
+  intro f hb hc hok rest hna ho
   cases f with
   | lit a => simp [rFac, pFac]
+  | tbl hdr rows =>
+    simp only [costF] at hc
+    simp only [okF] at hok
+    exact tbl_complete g n ihE0 hdr rows (by omega) hok rest (ho rfl)
   | var x =>
-    cases rest with
-    | nil => simp [rFac, pFac]
-    | cons t r =>
-      have := hna t r rfl
-      cases t <;> simp [rFac, pFac] <;> simp at this
+    have hnlp : ∀ r', rest ≠ .lp :: r' := by
+      intro r' e; have := hna _ _ e; simp [Tok.isApp] at this
+    simp only [rFac, List.cons_append, List.nil_append]
+    rw [pFac_name g n x rest hnlp, many_none _ _ _ (pSel_none g n rest hna)]
   | call x args =>
     simp only [costF] at hc
     simp only [okF] at hok
-    have hl := exList_complete g n ihE .rp (Or.inl rfl) args (by omega) hok rest
+    have hl := argList_complete g n ihA args (by omega) hok rest
     simp only [rFac, List.cons_append, List.append_assoc, List.nil_append, pFac, hl]
   | mat rows =>
     simp only [costF] at hc
@@ -851,27 +1831,79 @@ theorem rt_base (g : Gram) (n : Nat)
   | set es =>
     simp only [costF] at hc
     simp only [okF] at hok
-    have hl := exList_complete g n ihE .rc (Or.inr rfl) es (by omega) hok rest
-    simp only [rFac, List.cons_append, List.append_assoc, List.nil_append, pFac, hl]
-  | slice x subs =>
+    cases es with
+    | nil => simp [rFac, rExs, pFac, listTill, classify]
+    | cons e es' =>
+      have hb := brace_complete g n ihN ((e :: es').map .plain) (by simp)
+        (by
+          intro a ha
+          obtain ⟨x, hx, rfl⟩ := List.mem_map.mp ha
+          have := costEs_mem (e :: es') x hx
+          exact ⟨by simp only [costEnt]; omega, okEs_mem g _ hok x hx⟩)
+        (.set (e :: es'))
+        (classify_plain e es')
+        rest
+      rw [rSep_map] at hb
+      simpa [rFac, rExs_eq, rEnt] using hb
+  | recd bs =>
     simp only [costF] at hc
     simp only [okF] at hok
-    have hl : sepBy (pSub g n) .comma (rSubs g subs ++ .rb :: rest).length (rSubs g subs ++ .rb :: rest) = some (subs, .rb :: rest) := by
-      rw [rSubs_eq]
-      apply sepBy_complete (pSub g n) (rSub g) .comma (.rb :: rest)
-      · intro t r' e; cases e; decide
-      · exact hok.1
-      · intro s hs tail htail
-        apply ihS s (Nat.le_trans (costSubs_mem subs s hs) (by omega)) (okSubs_mem g subs hok.2 s hs)
-        rcases htail with h | ⟨y, h⟩
-        · subst h; exact noContE_stop g _ _ rfl
-        · subst h; exact noContE_stop g _ _ rfl
-      · have := rSep_length_ge (rSub g) .comma subs (fun s _ => by
-          cases s with
-          | all => simp [rSub]
-          | ex e => obtain ⟨t, r', e1, _⟩ := rEx_head g e; simp [rSub, e1])
-        simp only [List.length_append]; omega
-    simp only [rFac, List.cons_append, List.append_assoc, List.nil_append, pFac, hl]
+    have hb := brace_complete g n ihN (bs.map entB) (by simpa using hok.1)
+      (by
+        intro a ha
+        obtain ⟨b, hb, rfl⟩ := List.mem_map.mp ha
+        have h1 := costBinds_mem bs b hb
+        have h2 := okBinds_mem g bs hok.2 b hb
+        cases b with
+        | mk x k e => exact ⟨by simp only [entB, costEnt, costBind] at h1 ⊢; omega, by simpa [entB, okEnt, okBind] using h2⟩)
+      (.recd bs)
+      (by
+        cases bs with
+        | nil => exact absurd rfl hok.1
+        | cons b bs' => exact classify_entB b bs')
+      rest
+    rw [rSep_map] at hb
+    simpa [rFac, rBinds_eq, rEnt_entB] using hb
+  | map ms =>
+    simp only [costF] at hc
+    simp only [okF] at hok
+    cases ms with
+    | nil => simp [rFac, pFac]
+    | cons m ms' =>
+      have hb := brace_complete g n ihN ((m :: ms').map entM) (by simp)
+        (by
+          intro a ha
+          obtain ⟨b, hb, rfl⟩ := List.mem_map.mp ha
+          have h1 := costMaps_mem (m :: ms') b hb
+          have h2 := okMaps_mem g (m :: ms') hok.1 b hb
+          rcases entM_cases b with ⟨x, v, hm, he⟩ | ⟨k, v, hm, he, hnb⟩
+          · subst hm; rw [he]
+            simp only [okMapping, costMapping] at h1 h2
+            exact ⟨by simp only [costEnt]; omega, by simpa [okEnt] using h2.2⟩
+          · subst hm; rw [he]
+            simp only [okMapping, costMapping] at h1 h2
+            exact ⟨by simp only [costEnt]; omega, by simp only [okEnt]; exact ⟨h2.1, h2.2, hnb⟩⟩)
+        (.map (m :: ms'))
+        (classify_entM m ms' (hok.2 (by simp)))
+        rest
+      rw [rSep_map] at hb
+      simpa [rFac, rMaps_eq, rEnt_entM] using hb
+  | slice x sels =>
+    simp only [costF] at hc
+    simp only [okF] at hok
+    have hm := sels_complete g n ihL sels (by omega) hok.2 rest hna
+    cases sels with
+    | nil => exact absurd rfl hok.1
+    | cons s ss =>
+      have hnlp : ∀ r', rSels g (s :: ss) ++ rest ≠ .lp :: r' := by
+        intro r' e
+        obtain ⟨t0, r0, e0, ht0⟩ := rSels_head g s ss rest
+        rw [e0] at e
+        have : t0 = .lp := (List.cons.inj e).1
+        subst this
+        rcases ht0 with h | h | h <;> cases h
+      simp only [rFac, List.cons_append]
+      rw [pFac_name g n x _ hnlp, hm]
   | paren t =>
     simp only [costF] at hc
     simp only [okF] at hok
@@ -883,6 +1915,18 @@ theorem rt_base (g : Gram) (n : Nat)
   | neg f => simp [Fac.isBase] at hb
   | not f => simp [Fac.isBase] at hb
   | tr f => simp [Fac.isBase] at hb
+
+theorem pArg_other (g : Gram) (n : Nat) (ts : List Tok) (h : ∀ x r, ts ≠ .id x :: .colon :: r) :
+    pArg g (n + 1) ts = (match pEx g n ts with | some (e, r) => some (.pos e, r) | none => none) := by
+  simp only [pArg] <;> rfl
+
+theorem pEnt_other (g : Gram) (n : Nat) (ts : List Tok) (h1 : ∀ x k r, ts ≠ .id x :: .kind k :: .colon :: r)
+    (h2 : ∀ x r, ts ≠ .id x :: .colon :: r) :
+    pEnt g (n + 1) ts = (match pEx g n ts with
+       | some (a, .colon :: r) => (match pEx g n r with | some (b, r') => some (.keyed a b, r') | none => none)
+       | some (a, r) => some (.plain a, r)
+       | none => none) := by
+  simp only [pEnt] <;> rfl
 
 theorem pSub_noColon (g : Gram) (n : Nat) (ts : List Tok) (h : ∀ r, ts ≠ .colon :: r) :
     pSub g (n + 1) ts = (pEx g n ts).map (fun p => (Sub.ex p.1, p.2)) := by
@@ -905,34 +1949,35 @@ theorem noCont_dots (g : Gram) (i : Bool) (r : List Tok) : NoCont g (.dots i :: 
   intro t r' e
   have : t = .dots i := (List.cons.inj e).1.symm
   subst this
-  simp [Gram.binOp?]
+  simp [Gram.binOp?, Tok.isApp]
 
 theorem rt_step (g : Gram) (n : Nat) (ih : RT g n) : RT g (n + 1) := by
-  obtain ⟨ihF, ihC, ihT, ihE, ihS⟩ := ih
-  have hbase := rt_base g n ihT ihE ihS
-  refine ⟨?_, ?_, ?_, ?_, ?_⟩
+  obtain ⟨ihF, ihC, ihT, ihE0, ihS, ihA, ihN, ihL⟩ := ih
+  have ihE := ihE0.strong
+  have hbase := rt_base g n ihE0 ihE ihS ihA ihN ihL
+  refine ⟨?_, ?_, ?_, ?_, ?_, ?_, ?_, ?_⟩
   · -- factors
-    intro f hc hok rest hq
+    intro f hc hok rest hq ho
     have hnq : ∀ t r, rest = t :: r → t ≠ .quote := fun t r e => (hq t r e).1
     by_cases hb : f.isBase = true
-    · rw [hbase f hb hc hok rest (noApp_of rest hq), post_noquote _ _ hnq]
+    · rw [hbase f hb hc hok rest (noApp_of rest hq) ho, post_noquote _ _ hnq]
     · cases f with
       | neg f =>
         simp only [costF] at hc
         simp only [okF] at hok
-        have := ihF f (by omega) hok rest hq
+        have := ihF f (by omega) hok rest hq (fun h => ho (by simpa [Fac.open] using h))
         simp only [rFac, List.cons_append, pFac, this]
         rw [post_noquote _ _ hnq]
       | not f =>
         simp only [costF] at hc
         simp only [okF] at hok
-        have := ihF f (by omega) hok rest hq
+        have := ihF f (by omega) hok rest hq (fun h => ho (by simpa [Fac.open] using h))
         simp only [rFac, List.cons_append, pFac, this]
         rw [post_noquote _ _ hnq]
       | tr f =>
         simp only [costF] at hc
         simp only [okF] at hok
-        have := hbase f hok.1 (by omega) hok.2 (.quote :: rest) (by intro t r e; cases e; simp)
+        have := hbase f hok.1 (by omega) hok.2 (.quote :: rest) (by intro t r e; cases e; rfl) (by intro _ t r e; cases e; rfl)
         simp only [rFac, List.append_assoc, List.cons_append, List.nil_append, this, post]
       | lit _ => simp [Fac.isBase] at hb
       | var _ => simp [Fac.isBase] at hb
@@ -940,10 +1985,13 @@ theorem rt_step (g : Gram) (n : Nat) (ih : RT g n) : RT g (n + 1) := by
       | mat _ => simp [Fac.isBase] at hb
       | tup _ => simp [Fac.isBase] at hb
       | set _ => simp [Fac.isBase] at hb
+      | recd _ => simp [Fac.isBase] at hb
+      | map _ => simp [Fac.isBase] at hb
+      | tbl _ _ => simp [Fac.isBase] at hb
       | slice _ _ => simp [Fac.isBase] at hb
       | paren _ => simp [Fac.isBase] at hb
   · -- chains
-    intro ps hc hops hok rest hnc
+    intro ps hc hops hok hch rest hnc hlast
     cases ps with
     | nil =>
       simp only [rRest, List.nil_append]
@@ -955,44 +2003,52 @@ theorem rt_step (g : Gram) (n : Nat) (ih : RT g n) : RT g (n + 1) := by
     | cons x ps =>
       obtain ⟨o, f⟩ := x
       simp only [costR] at hc
+      simp only [chainOkR] at hch
+      simp only [lastOpenR] at hlast
       have hf : okF g f := hok (o, f) List.mem_cons_self
       have hps : ∀ p ∈ ps, okF g p.2 := fun p hp => hok p (List.mem_cons_of_mem _ hp)
-      have h1 := ihF f (by omega) hf (rRest g ps ++ rest) (head_rRest g ps rest hnc)
-      have h2 := ihC ps (by omega) (fun x hx => hops x (List.mem_cons_of_mem _ hx)) hps rest hnc
+      have h1 := ihF f (by omega) hf (rRest g ps ++ rest) (head_rRest g ps rest hnc) (follow_open g f ps rest hch hlast)
+      have h2 := ihC ps (by omega) (fun x hx => hops x (List.mem_cons_of_mem _ hx)) hps (chainOkR_of g f ps hch) rest hnc
+        (fun h => hlast (lastOpenR_of f ps h))
       simp only [rRest, List.cons_append, List.append_assoc, pChain, binOp_opTok g o (hops (o, f) List.mem_cons_self), h1, h2]
   · -- formulas
-    intro t hc hok rest hnc
+    intro t hc hok rest hnc hlast
     obtain ⟨hwg, hops, hl⟩ := hok
     have hparts := okL_parts g t hl
+    have hch := okL_chain g t hl
     have hcost := cost_first_tail t
     have h1 := ihF t.first (by omega) hparts.1 (rRest g t.tail ++ rest) (head_rRest g t.tail rest hnc)
-    have h2 := ihC t.tail (by omega) hops hparts.2 rest hnc
+      (follow_open g t.first t.tail rest hch hlast)
+    have h2 := ihC t.tail (by omega) hops hparts.2 (chainOkR_of g t.first t.tail hch) rest hnc
+      (fun h => hlast (lastOpenR_of t.first t.tail h))
     have h3 : parseFormula g.N t.first t.tail = (t, []) := by
       have ha := grouping_unique g.N t.first t.tail hops t hwg rfl rfl
       have hb := (parse_consumes_all g.N t.first t.tail hops).1
       exact Prod.ext ha hb
     simp only [rTrm_flat, List.append_assoc, pForm, h1, h2, h3, List.isEmpty_nil, if_true]
   · -- expressions
-    intro e hc hok rest hnc
-    have hd : ∀ i r, rest ≠ .dots i :: r := fun i r e => (hnc _ _ e).2.2.2.2 i rfl
+    intro e hc hok rest hnc hlast
+    have hd : ∀ i r, rest ≠ .dots i :: r := fun i r e => (hnc _ _ e).2.2.2 i rfl
+    have hdots : ∀ (P : Prop) i r, P → NoStart (.dots i :: r) := by
+      intro P i r _ t r' e; cases e; rfl
     cases e with
     | form t =>
       simp only [costE] at hc
       simp only [okE] at hok
-      exact pEx_form_of g n _ t rest (ihT t (by omega) hok rest hnc.noCont) hd
+      exact pEx_form_of g n _ t rest (ihT t (by omega) hok rest hnc.noCont hlast) hd
     | range a i b =>
       simp only [costE] at hc
       simp only [okE] at hok
-      have h1 := ihT a (by omega) hok.1 (.dots i :: (rTrm g b ++ rest)) (noCont_dots g _ _)
-      have h2 := ihT b (by omega) hok.2 rest hnc.noCont
+      have h1 := ihT a (by omega) hok.1 (.dots i :: (rTrm g b ++ rest)) (noCont_dots g _ _) (hdots _ _ _)
+      have h2 := ihT b (by omega) hok.2 rest hnc.noCont hlast
       have := pEx_range_of g n (rTrm g a ++ .dots i :: (rTrm g b ++ rest)) a b i _ rest h1 h2 hd
       simpa [rEx] using this
     | range3 a i1 s i2 b =>
       simp only [costE] at hc
       simp only [okE] at hok
-      have h1 := ihT a (by omega) hok.1 (.dots i1 :: (rTrm g s ++ .dots i2 :: (rTrm g b ++ rest))) (noCont_dots g _ _)
-      have h2 := ihT s (by omega) hok.2.1 (.dots i2 :: (rTrm g b ++ rest)) (noCont_dots g _ _)
-      have h3 := ihT b (by omega) hok.2.2 rest hnc.noCont
+      have h1 := ihT a (by omega) hok.1 (.dots i1 :: (rTrm g s ++ .dots i2 :: (rTrm g b ++ rest))) (noCont_dots g _ _) (hdots _ _ _)
+      have h2 := ihT s (by omega) hok.2.1 (.dots i2 :: (rTrm g b ++ rest)) (noCont_dots g _ _) (hdots _ _ _)
+      have h3 := ihT b (by omega) hok.2.2 rest hnc.noCont hlast
       simp only [rEx, List.append_assoc, List.cons_append, pEx, h1, h2, h3]
   · -- subscripts
     intro s hc hok rest hnc
@@ -1009,58 +2065,130 @@ theorem rt_step (g : Gram) (n : Nat) (ih : RT g n) : RT g (n + 1) := by
         have : t = .colon := (List.cons.inj he).1
         exact (isStart_ne t hs).2.2.2 this
       rw [rSub, pSub_noColon g n _ hne, h1]; rfl
+  · -- arguments
+    intro a hc hok rest hst
+    obtain ⟨c, y, hr, hcs⟩ := hst
+    subst hr
+    have hnc : NoContE g (c :: y) := noContE_stop g c y hcs
+    cases a with
+    | pos e =>
+      simp only [costArg] at hc; simp only [okArg] at hok
+      have h1 := ihE e (by omega) hok _ hnc
+      have hne : ∀ x r, rEx g e ++ c :: y ≠ .id x :: .colon :: r := by
+        intro x r he
+        obtain ⟨_, h2⟩ := rEx_key g e _ x .colon r hok he rfl
+        have : c = .colon := (List.cons.inj h2).1
+        subst this; simp [Tok.isStop] at hcs
+      rw [rArg, pArg_other g n _ hne, h1]
+    | named x e =>
+      simp only [costArg] at hc; simp only [okArg] at hok
+      have h1 := ihE e (by omega) hok _ hnc
+      simp only [rArg, List.cons_append, pArg, h1]
+  · -- entries between braces
+    intro a hc hok rest hst
+    obtain ⟨c, y, hr, hcs⟩ := hst
+    subst hr
+    have hnc : NoContE g (c :: y) := noContE_stop g c y hcs
+    cases a with
+    | plain e =>
+      simp only [costEnt] at hc; simp only [okEnt] at hok
+      have h1 := ihE e (by omega) hok _ hnc
+      have hn1 : ∀ x k r, rEx g e ++ c :: y ≠ .id x :: .kind k :: .colon :: r := by
+        intro x k r he
+        obtain ⟨_, h2⟩ := rEx_key g e _ x (.kind k) _ hok he rfl
+        have : c = .kind k := (List.cons.inj h2).1
+        subst this; simp [Tok.isStop] at hcs
+      have hn2 : ∀ x r, rEx g e ++ c :: y ≠ .id x :: .colon :: r := by
+        intro x r he
+        obtain ⟨_, h2⟩ := rEx_key g e _ x .colon r hok he rfl
+        have : c = .colon := (List.cons.inj h2).1
+        subst this; simp [Tok.isStop] at hcs
+      rw [rEnt, pEnt_other g n _ hn1 hn2, h1]
+      cases c <;> simp [Tok.isStop] at hcs <;> rfl
+    | keyed k v =>
+      simp only [costEnt] at hc; simp only [okEnt] at hok
+      have hk := ihE k (by omega) hok.1 (.colon :: (rEx g v ++ c :: y)) (noContE_colon g _)
+      have hv := ihE v (by omega) hok.2.1 _ hnc
+      have hn1 : ∀ x k' r, rEx g k ++ .colon :: (rEx g v ++ c :: y) ≠ .id x :: .kind k' :: .colon :: r := by
+        intro x k' r he
+        exact hok.2.2 x (rEx_key g k _ x (.kind k') _ hok.1 he rfl).1
+      have hn2 : ∀ x r, rEx g k ++ .colon :: (rEx g v ++ c :: y) ≠ .id x :: .colon :: r := by
+        intro x r he
+        exact hok.2.2 x (rEx_key g k _ x .colon _ hok.1 he rfl).1
+      simp only [rEnt, List.append_assoc, List.cons_append]
+      rw [pEnt_other g n _ hn1 hn2, hk]
+      simp only [hv]
+    | bind x k e =>
+      simp only [costEnt] at hc; simp only [okEnt] at hok
+      have h1 := ihE e (by omega) hok _ hnc
+      cases k <;> simp only [rEnt, List.cons_append, List.nil_append, pEnt, h1]
+  · -- subscripts after a name
+    intro s hc hok rest hq
+    cases s with
+    | bracket ss =>
+      simp only [costSel] at hc; simp only [okSel] at hok
+      have hl := subs_complete g n ihS ss hok.1 (by omega) hok.2 .rb (Or.inl rfl) rest
+      simp only [rSel, List.cons_append, List.append_assoc, List.nil_append, pSel, hl]
+    | brace ss =>
+      simp only [costSel] at hc; simp only [okSel] at hok
+      have hl := subs_complete g n ihS ss hok.1 (by omega) hok.2 .rc (Or.inr rfl) rest
+      simp only [rSel, List.cons_append, List.append_assoc, List.nil_append, pSel, hl]
+    | dot y =>
+      cases rest with
+      | nil => simp [rSel, pSel]
+      | cons t r =>
+        have := hq t r rfl
+        cases t <;> simp [rSel, pSel] <;> simp at this
+    | dotInt k => simp [rSel, pSel]
+    | swizzle y ys =>
+      simp only [okSel] at hok
+      have hl : sepBy pName .swz (rSep (fun z => [Tok.id z]) .swz ys ++ rest).length (rSep (fun z => [Tok.id z]) .swz ys ++ rest) = some (ys, rest) := by
+        apply sepBy_complete pName (fun z => [Tok.id z]) .swz rest hq ys hok
+        · intro z _ tail _; rfl
+        · have := rSep_length_ge (fun z => [Tok.id z]) .swz ys (fun _ _ => by simp)
+          simp only [List.length_append]; omega
+      simp only [rSel, List.cons_append, pSel, hl]
 
 theorem rt_all (g : Gram) : ∀ n, RT g n
   | 0 => by
-    refine ⟨?_, ?_, ?_, ?_, ?_⟩
+    refine ⟨?_, ?_, ?_, ?_, ?_, ?_, ?_, ?_⟩
     · intro f hc; cases f <;> simp [costF] at hc
     · intro ps hc; omega
     · intro t hc; omega
     · intro e hc; cases e <;> simp [costE] at hc
     · intro s hc; cases s <;> simp [costSub] at hc
+    · intro a hc; cases a <;> simp [costArg] at hc
+    · intro a hc; cases a <;> simp [costEnt] at hc
+    · intro s hc; cases s <;> simp [costSel] at hc
   | n + 1 => rt_step g n (rt_all g n)
 
 /-! statements and programs -/
 
 def okStmt (g : Gram) : Stmt → Prop
   | .define _ _ _ e => okE g e
-  | .assign _ subs e => okSubs g subs ∧ okE g e
-  | .opAssign _ subs _ e => okSubs g subs ∧ okE g e
+  | .assign _ sels e => okSels g sels ∧ okE g e
+  | .opAssign _ sels _ e => okSels g sels ∧ okE g e
 
 def costStmt : Stmt → Nat
   | .define _ _ _ e => costE e
-  | .assign _ subs e => costSubs subs + costE e
-  | .opAssign _ subs _ e => costSubs subs + costE e
+  | .assign _ sels e => costSels sels + costE e
+  | .opAssign _ sels _ e => costSels sels + costE e
 
-theorem subs_complete (g : Gram) (n : Nat) (subs : List (Sub Fac)) (hne : subs ≠ []) (hc : costSubs subs ≤ n) (hok : okSubs g subs)
-    (rest : List Tok) :
-    sepBy (pSub g n) .comma (rSubs g subs ++ .rb :: rest).length (rSubs g subs ++ .rb :: rest) = some (subs, .rb :: rest) := by
-  rw [rSubs_eq]
-  apply sepBy_complete (pSub g n) (rSub g) .comma (.rb :: rest)
-  · intro t r' e; cases e; decide
-  · exact hne
-  · intro s hs tail htail
-    apply (rt_all g n).2.2.2.2 s (Nat.le_trans (costSubs_mem subs s hs) hc) (okSubs_mem g subs hok s hs)
-    rcases htail with h | ⟨y, h⟩
-    · subst h; exact noContE_stop g _ _ rfl
-    · subst h; exact noContE_stop g _ _ rfl
-  · have := rSep_length_ge (rSub g) .comma subs (fun s _ => by
-      cases s with
-      | all => simp [rSub]
-      | ex e => obtain ⟨t, r', e1, _⟩ := rEx_head g e; simp [rSub, e1])
-    simp only [List.length_append]; omega
+theorem pTarget_complete (g : Gram) (n : Nat) (x : Nat) (sels : List (Sel Fac)) (hc : costSels sels ≤ n) (hok : okSels g sels)
+    (rest : List Tok) (hrest : NoApp rest) :
+    pTarget g n (rTarget g x sels ++ rest) = some (x, sels, rest) := by
+  have hm := sels_complete g n (rt_all g n).2.2.2.2.2.2.2 sels hc hok rest hrest
+  simp only [rTarget, List.cons_append, pTarget, hm]
 
-theorem pTarget_complete (g : Gram) (n : Nat) (x : Nat) (subs : List (Sub Fac)) (hc : costSubs subs ≤ n) (hok : okSubs g subs)
-    (rest : List Tok) (hrest : ∀ r, rest ≠ .lb :: r) :
-    pTarget g n (rTarget g x subs ++ rest) = some (x, subs, rest) := by
-  cases subs with
+theorem rTarget_noDefine (g : Gram) (n : Nat) (x : Nat) (sels : List (Sel Fac)) (t : Tok) (r : List Tok)
+    (ht : ∀ k, t ≠ .kind k) (ht' : t ≠ .define) : pDefine g n false (rTarget g x sels ++ t :: r) = none := by
+  cases sels with
   | nil =>
-    cases rest with
-    | nil => simp [rTarget, pTarget]
-    | cons t r => cases t <;> first | exact absurd rfl (hrest r) | simp [rTarget, pTarget]
+    cases t <;> first | exact absurd rfl (ht _) | exact absurd rfl ht' | simp [rTarget, rSels, pDefine]
   | cons s ss =>
-    have hl := subs_complete g n (s :: ss) (by simp) hc hok rest
-    simp only [rTarget, List.isEmpty_cons, Bool.false_eq_true, if_false, List.cons_append, List.append_assoc, List.nil_append, pTarget, hl]
+    obtain ⟨t0, r0, e0, ht0⟩ := rSels_head g s ss (t :: r)
+    simp only [rTarget, List.cons_append, e0]
+    rcases ht0 with h | h | h <;> subst h <;> simp [pDefine]
 
 theorem pStmt_complete (g : Gram) (n : Nat) (s : Stmt) (hc : costStmt s ≤ n) (hok : okStmt g s) (rest : List Tok) (hnc : NoContE g rest) :
     pStmt g n (rStmt g s ++ rest) = some (s, rest) := by
@@ -1068,31 +2196,29 @@ theorem pStmt_complete (g : Gram) (n : Nat) (s : Stmt) (hc : costStmt s ≤ n) (
   | define mu x k e =>
     simp only [costStmt] at hc
     simp only [okStmt] at hok
-    have he := (rt_all g n).2.2.2.1 e hc hok rest hnc
+    have he := EClaim.strong (rt_all g n).2.2.2.1 e hc hok rest hnc
     cases mu <;> cases k <;> simp [rStmt, pStmt, pDefine, he]
-  | assign x subs e =>
+  | assign x sels e =>
     simp only [costStmt] at hc
     simp only [okStmt] at hok
-    have he := (rt_all g n).2.2.2.1 e (by omega) hok.2 rest hnc
-    have ht := pTarget_complete g n x subs (by omega) hok.1 (.assign :: (rEx g e ++ rest)) (by intro r h; cases h)
-    have hd : pDefine g n false (rTarget g x subs ++ .assign :: (rEx g e ++ rest)) = none := by
-      unfold rTarget; split <;> simp [pDefine]
-    have hnt : ∀ r, rTarget g x subs ++ .assign :: (rEx g e ++ rest) ≠ .tilde :: r := by
-      intro r h; unfold rTarget at h; split at h <;> simp at h
+    have he := EClaim.strong (rt_all g n).2.2.2.1 e (by omega) hok.2 rest hnc
+    have ht := pTarget_complete g n x sels (by omega) hok.1 (.assign :: (rEx g e ++ rest)) (by intro t r h; cases h; rfl)
+    have hd := rTarget_noDefine g n x sels .assign (rEx g e ++ rest) (by intro k h; cases h) (by intro h; cases h)
+    have hnt : ∀ r, rTarget g x sels ++ .assign :: (rEx g e ++ rest) ≠ .tilde :: r := by
+      intro r h; simp [rTarget] at h
     simp only [rStmt, List.append_assoc, List.cons_append]
     unfold pStmt
     split
     · next r heq => exact absurd heq (hnt r)
     · simp only [hd, ht, he]
-  | opAssign x subs k e =>
+  | opAssign x sels k e =>
     simp only [costStmt] at hc
     simp only [okStmt] at hok
-    have he := (rt_all g n).2.2.2.1 e (by omega) hok.2 rest hnc
-    have ht := pTarget_complete g n x subs (by omega) hok.1 (.opAssign k :: (rEx g e ++ rest)) (by intro r h; cases h)
-    have hd : pDefine g n false (rTarget g x subs ++ .opAssign k :: (rEx g e ++ rest)) = none := by
-      unfold rTarget; split <;> simp [pDefine]
-    have hnt : ∀ r, rTarget g x subs ++ .opAssign k :: (rEx g e ++ rest) ≠ .tilde :: r := by
-      intro r h; unfold rTarget at h; split at h <;> simp at h
+    have he := EClaim.strong (rt_all g n).2.2.2.1 e (by omega) hok.2 rest hnc
+    have ht := pTarget_complete g n x sels (by omega) hok.1 (.opAssign k :: (rEx g e ++ rest)) (by intro t r h; cases h; rfl)
+    have hd := rTarget_noDefine g n x sels (.opAssign k) (rEx g e ++ rest) (by intro k h; cases h) (by intro h; cases h)
+    have hnt : ∀ r, rTarget g x sels ++ .opAssign k :: (rEx g e ++ rest) ≠ .tilde :: r := by
+      intro r h; simp [rTarget] at h
     simp only [rStmt, List.append_assoc, List.cons_append]
     unfold pStmt
     split
@@ -1102,8 +2228,8 @@ theorem pStmt_complete (g : Gram) (n : Nat) (s : Stmt) (hc : costStmt s ≤ n) (
 theorem rStmt_nonempty (g : Gram) (s : Stmt) : 1 ≤ (rStmt g s).length := by
   cases s with
   | define mu x k e => cases mu <;> simp [rStmt]
-  | assign x subs e => simp [rStmt]; omega
-  | opAssign x subs k e => simp [rStmt]; omega
+  | assign x subs e => simp [rStmt, rTarget]
+  | opAssign x subs k e => simp [rStmt, rTarget]
 
 theorem pProg_complete (g : Gram) (n : Nat) (ss : List Stmt) (hne : ss ≠ []) (h : ∀ s ∈ ss, costStmt s ≤ n ∧ okStmt g s) :
     pProg g n (rProg g ss) = some ss := by
